@@ -2,6 +2,8 @@ import FluentProofs.ConstTieSyntax
 import FluentProofs.SerializerEntries
 import FluentProofs.SerializerLineSplit
 import FluentProofs.SerializerSources
+import FluentProofs.SerializerSelect
+import FluentProofs.SerializerFinal
 /-!
 # C04 — serializer round trip
 
@@ -19,13 +21,21 @@ all inputs (structural induction over the mutual AST types):
   source), hence **`C04_roundtrip_statement → C04_fixpoint_statement`**;
 * T2 `inline_serialize`, `inline_roundtrip`, `inline_roundtrip_source` — every valid inline
   expression (all seven forms, call arguments, nested placeables) is parsed back;
-* T2 `pattern_roundtrip_singleline`, `roundtrip_singleline_partial` — the full round trip and fixed
-  point (through `parse`, with the fuel `parse` passes) for resources of messages/terms with
-  single-line values.
+* T2 `pattern_roundtrip_singleline`, `roundtrip_singleline_partial`, `roundtrip_singleline_sources` —
+  the full round trip and fixed point for resources of messages/terms with single-line values;
+* `serialize_output_str_invariant` — the serializer's output on a parsed tree keeps the `&str` invariant;
+* T3 `pattern_roundtrip` — multi-line patterns (common indent, blank lines, excess indentation,
+  placeable-led lines, inline start for `.`/`[`/`*`, trim) and select expressions, nested, at every level;
+* T3 `roundtrip_class_partial`, `roundtrip_class_sources` — **both full statements for every source
+  whose parse tree is `RoundTrippable`** (decidable): messages and terms with optional values,
+  attributes, attached comments; free comments of the three levels; Junk when serialising without junk.
+  A census (`#guard`, tests) shows 34 of the 36 fixture files inside the class for `with_junk = false`.
 
-Missing for the full statements (T3): `C04_roundtrip_statement` for multi-line patterns
-(`get_pattern`'s indentation stripping against `serialize_pattern`'s indentation), selects/variants,
-attributes, comments and Junk.  `C04_fixpoint_statement` needs nothing else (`fixpoint_of_roundtrip`).
+Missing for the full statements: trees outside `RoundTrippable` — Junk with `with_junk = true` (needs a
+containment theorem for broken entries), `\r` inside text (the `\r` doubling), text element splits
+that the parser itself would join differently (only equal under `norm`, e.g. CRLF sources), selects
+inside doubled placeables, and "every parser output is in the class".  `C04_fixpoint_statement` needs
+nothing else than `C04_roundtrip_statement` (`fixpoint_of_roundtrip`).
 -/
 namespace FluentProofs.C04
 open FluentModel FluentModel.Syntax FluentModel.Syntax.Ser FluentProofs.Parser FluentProofs.Ser
@@ -260,6 +270,32 @@ theorem roundtrip_singleline_partial (withJunk : Bool) (r : Resource Bytes)
   obtain ⟨t', h3, h4, h5⟩ := h2 hs
   exact ⟨t', h3, h4, by rw [h4], h5⟩
 
+/-- **T3, pattern level: every pattern of the class `rtPattern` round-trips at every indent level.**
+`rtPattern` (decidable) = `mlPattern` — non-empty; texts non-empty, without `\r` `{` `}`, `\n` only as
+last byte; two texts adjacent only across a line break; a text that starts a line is a blank line `"\n"`,
+or spaces followed by a byte other than ` ` `\n` `.` `[` `*`, or only spaces in front of a placeable (the
+F17 shape); the last text does not end with ` `/`\n`; the first text fits the layout the serializer
+chooses (`starts_on_new_line`: not a blank line / inline: no leading space); for multi-line patterns
+some line has no excess indentation — with placeables that are valid inline expressions or **select
+expressions** (selector accepted by the parser, valid keys, exactly one default, values again
+`rtPattern`), recursively.
+
+For such `p` and every level `L`: (serializer) from a writer at level `L` whose buffer ends with
+neither `\n` nor `\r`, `serialize_pattern` appends exactly `patText L p` (newline + `4·(L+1)` spaces
+per line for multi-line patterns, inline start for patterns starting with `.` `[` `*`, select variants
+one level deeper with the `*` in the last indentation column) and returns to level `L`; (parser) on
+every source with the `&str` invariant containing `patText L p ++ "\n"` followed by empty lines and a
+line on which a pattern stops, `get_pattern` returns a pattern that resolves to exactly `p` — the
+common indent it removes is `4·(L+1)`, blank lines, excess indentation, placeable-led lines and the
+final `trim` come out as in `p`. -/
+theorem pattern_roundtrip (p : List (PatElem Bytes)) (h : rtPattern p = true) (L : Nat) :
+    (∀ w : Writer, WS w L false →
+      ∃ w', serPattern w p = some w' ∧ w'.buffer = w.buffer ++ (patText L p).toArray ∧ WS w' L false) ∧
+    (∀ (s : Src) (q q' n : Nat), AsciiThenBoundary s → At s q (patText L p ++ [10]) →
+      PatFollow s (q + (patText L p).length + 1) q' → 4 * (q' - q) + 8 ≤ n →
+      ∃ els, getPattern s n q = .ok (some els) q' ∧ mapPat (spanBytes s) els = p) :=
+  ⟨(rtPattern_patRT p h L).ser, (rtPattern_patRT p h L).parse⟩
+
 /-- **The serializer's output on a parsed tree is again a `&str`-shaped byte string**: for every
 `String` and both options, the output of serialising its parse tree satisfies `AsciiThenBoundary` (the
 only UTF-8 fact the parser model uses).  Proof: every string of the tree is a slice at char boundaries
@@ -284,6 +320,35 @@ theorem roundtrip_singleline_sources (str : String) (withJunk : Bool) (t : Resou
         Ser.serialize withJunk (resolve out.toArray t') = some out := by
   obtain ⟨out, h1, t', h2, h3, h4⟩ := roundtrip_singleline_source str withJunk t errs hp hv
   exact ⟨out, h1, t', [], h2, by rw [h3], h4⟩
+
+/-- **T3 `roundtrip_class_partial`, on trees.**  `RoundTrippable withJunk r` (decidable): every entry is
+a message (identifier well-shaped; value an `rtPattern` or absent if there are attributes; attributes
+with well-shaped identifiers and `rtPattern` values; optional attached comment), a term (same, value
+mandatory), or a comment / group comment / resource comment (non-empty, lines without `\n` `\r`);
+Junk entries are allowed when `withJunk = false`.  For such `r`: `serialize` returns `out` (attached
+comments in front of their entry, attributes on indented lines one level deep, free comments separated
+by the `wrote_non_junk_entry` blank line and followed by one, Junk skipped); if `out` has the `&str`
+invariant then `parse out` returns, **without errors**, a tree equal to `r` under `norm withJunk`, and
+serialising that tree again gives `out`. -/
+theorem roundtrip_class_partial (withJunk : Bool) (r : Resource Bytes) (h : RoundTrippable withJunk r = true) :
+    ∃ out, Ser.serialize withJunk r = some out ∧
+      (AsciiThenBoundary out.toArray →
+        ∃ t', parse out.toArray = .done (t', []) ∧
+          norm withJunk (resolve out.toArray t') = norm withJunk r ∧
+          Ser.serialize withJunk (resolve out.toArray t') = some out) :=
+  roundtrip_rt withJunk r h
+
+/-- **T3 `roundtrip_class_sources`: `C04_roundtrip_statement` and `C04_fixpoint_statement` restricted
+to the sources whose parse tree is `RoundTrippable`** — no other hypothesis. -/
+theorem roundtrip_class_sources (str : String) (withJunk : Bool) (t : Resource Span) (errs : List PErr)
+    (hp : parse str.toUTF8.data = .done (t, errs))
+    (h : RoundTrippable withJunk (resolve str.toUTF8.data t) = true) :
+    ∃ out, Ser.serialize withJunk (resolve str.toUTF8.data t) = some out ∧
+      ∃ t' errs', parse out.toArray = .done (t', errs') ∧
+        norm withJunk (resolve out.toArray t') = norm withJunk (resolve str.toUTF8.data t) ∧
+        Ser.serialize withJunk (resolve out.toArray t') = some out := by
+  obtain ⟨out, h1, t', h2, h3, h4⟩ := roundtrip_rt_source str withJunk t errs hp h
+  exact ⟨out, h1, t', [], h2, h3, h4⟩
 
 /-! ## non-vacuity and sanity tests (`decide +kernel` on literals: these are tests, not proofs of the property) -/
 
@@ -358,6 +423,14 @@ example : (match parse "a = x { FOO(1, k: \"v\") } y\n-t = { $z }\n".toUTF8.data
     | .done (t, _) => (resolve "a = x { FOO(1, k: \"v\") } y\n-t = { $z }\n".toUTF8.data t).all validSimpleEntry
     | _ => false) = true := by decide +kernel
 
+/-- test: `rtPattern` is satisfiable by a nested multi-line pattern:
+`x\n`, `  { $n ->`, `[one] a`, `*[other] b\n c`, `} y` (texts `"x\n"`, `"  "`, select, `" y"`) -/
+example : rtPattern [.text [120, 10], .text [32, 32],
+    .placeable (.select (.var [110])
+      [.mk (.ident [111, 110, 101]) [.text [97]] false,
+       .mk (.ident [111, 116, 104, 101, 114]) [.text [98, 10], .text [99]] true]),
+    .text [32, 121]] = true := by decide +kernel
+
 /-- test: the unrestricted `norm` is *not* a congruence — `[text "x\n", text "y"]` and `[text "x\ny"]`
 have the same `norm` but serialise differently (continuation indented / not indented) -/
 example :
@@ -372,5 +445,876 @@ example : LineSplit [.message ⟨[97], some [.text [120, 10], .text [121]], [], 
   simp at he
   subst he
   simp [lsEntry, lsPat, lsElem, lineText]
+
+/-! ## census: which of the repo's fixture sources fall inside the class (tests, not proofs of the property)
+
+`inClass src withJunk` = the parse tree of `src` is `RoundTrippable withJunk`, i.e. `roundtrip_class_sources`
+applies to it.  Evaluated by `#guard` on all 36 files of `fluent-syntax/tests/fixtures/*.ftl` (and by
+`decide +kernel` on the small ones).  Result: with `with_junk = false` 34 of 36 fixtures are inside the
+class (all but `cr.ftl` and `crlf.ftl`, which contain `\r`); with `with_junk = true` the 11 fixtures
+without Junk are inside. -/
+
+/-- test helper: the parse tree of `src` is in the class -/
+def inClass (src : Src) (withJunk : Bool) : Bool :=
+  match parse src with
+  | .done (t, _) => RoundTrippable withJunk (resolve src t)
+  | _ => false
+
+/-- census: `any_char.ftl` — with_junk=true: true, with_junk=false: true -/
+def fixture_any_char : Src :=
+    #[35, 32, 32, 32, 32, 32, 32, 32, 32, 32, 32, 32, 32, 32, 226, 134, 147, 32, 66, 69, 76, 44, 32, 85, 43, 48,
+    48, 48, 55, 10, 99, 111, 110, 116, 114, 111, 108, 48, 32, 61, 32, 97, 98, 99, 7, 100, 101, 102, 10, 10, 35,
+    32, 32, 32, 32, 32, 32, 32, 32, 32, 32, 32, 226, 134, 147, 32, 68, 69, 76, 44, 32, 85, 43, 48, 48, 55, 70, 10,
+    100, 101, 108, 101, 116, 101, 32, 61, 32, 97, 98, 99, 127, 100, 101, 102, 10, 10, 35, 32, 32, 32, 32, 32, 32,
+    32, 32, 32, 32, 32, 32, 32, 226, 134, 147, 32, 66, 80, 77, 44, 32, 85, 43, 48, 48, 56, 50, 10, 99, 111, 110,
+    116, 114, 111, 108, 49, 32, 61, 32, 97, 98, 99, 194, 130, 100, 101, 102, 10]
+#guard inClass fixture_any_char true == true && inClass fixture_any_char false == true
+example : (inClass fixture_any_char true == true && inClass fixture_any_char false == true) = true := by decide +kernel
+
+/-- census: `astral.ftl` — with_junk=true: false, with_junk=false: true -/
+def fixture_astral : Src :=
+    #[102, 97, 99, 101, 45, 119, 105, 116, 104, 45, 116, 101, 97, 114, 115, 45, 111, 102, 45, 106, 111, 121, 32,
+    61, 32, 240, 159, 152, 130, 10, 116, 101, 116, 114, 97, 103, 114, 97, 109, 45, 102, 111, 114, 45, 99, 101,
+    110, 116, 114, 101, 32, 61, 32, 240, 157, 140, 134, 10, 10, 115, 117, 114, 114, 111, 103, 97, 116, 101, 115,
+    45, 105, 110, 45, 116, 101, 120, 116, 32, 61, 32, 92, 117, 68, 56, 51, 68, 92, 117, 68, 69, 48, 50, 10, 115,
+    117, 114, 114, 111, 103, 97, 116, 101, 115, 45, 105, 110, 45, 115, 116, 114, 105, 110, 103, 32, 61, 32, 123,
+    34, 92, 117, 68, 56, 51, 68, 92, 117, 68, 69, 48, 50, 34, 125, 10, 115, 117, 114, 114, 111, 103, 97, 116, 101,
+    115, 45, 105, 110, 45, 97, 100, 106, 97, 99, 101, 110, 116, 45, 115, 116, 114, 105, 110, 103, 115, 32, 61, 32,
+    123, 34, 92, 117, 68, 56, 51, 68, 34, 125, 123, 34, 92, 117, 68, 69, 48, 50, 34, 125, 10, 10, 101, 109, 111,
+    106, 105, 45, 105, 110, 45, 116, 101, 120, 116, 32, 61, 32, 65, 32, 102, 97, 99, 101, 32, 240, 159, 152, 130,
+    32, 119, 105, 116, 104, 32, 116, 101, 97, 114, 115, 32, 111, 102, 32, 106, 111, 121, 46, 10, 101, 109, 111,
+    106, 105, 45, 105, 110, 45, 115, 116, 114, 105, 110, 103, 32, 61, 32, 123, 34, 65, 32, 102, 97, 99, 101, 32,
+    240, 159, 152, 130, 32, 119, 105, 116, 104, 32, 116, 101, 97, 114, 115, 32, 111, 102, 32, 106, 111, 121, 46,
+    34, 125, 10, 10, 35, 32, 69, 82, 82, 79, 82, 32, 73, 110, 118, 97, 108, 105, 100, 32, 105, 100, 101, 110, 116,
+    105, 102, 105, 101, 114, 10, 101, 114, 114, 45, 240, 159, 152, 130, 32, 61, 32, 86, 97, 108, 117, 101, 10, 10,
+    35, 32, 69, 82, 82, 79, 82, 32, 73, 110, 118, 97, 108, 105, 100, 32, 101, 120, 112, 114, 101, 115, 115, 105,
+    111, 110, 10, 101, 114, 114, 45, 105, 110, 118, 97, 108, 105, 100, 45, 101, 120, 112, 114, 101, 115, 115, 105,
+    111, 110, 32, 61, 32, 123, 32, 240, 159, 152, 130, 32, 125, 10, 10, 35, 32, 69, 82, 82, 79, 82, 32, 73, 110,
+    118, 97, 108, 105, 100, 32, 118, 97, 114, 105, 97, 110, 116, 32, 107, 101, 121, 10, 101, 114, 114, 45, 105,
+    110, 118, 97, 108, 105, 100, 45, 118, 97, 114, 105, 97, 110, 116, 45, 107, 101, 121, 32, 61, 32, 123, 32, 36,
+    115, 101, 108, 32, 45, 62, 10, 32, 32, 32, 32, 42, 91, 240, 159, 152, 130, 93, 32, 86, 97, 108, 117, 101, 10,
+    125, 10]
+#guard inClass fixture_astral true == false && inClass fixture_astral false == true
+
+/-- census: `call_expressions.ftl` — with_junk=true: false, with_junk=false: true -/
+def fixture_call_expressions : Src :=
+    #[35, 35, 32, 70, 117, 110, 99, 116, 105, 111, 110, 32, 110, 97, 109, 101, 115, 10, 10, 118, 97, 108, 105,
+    100, 45, 102, 117, 110, 99, 45, 110, 97, 109, 101, 45, 48, 49, 32, 61, 32, 123, 70, 85, 78, 49, 40, 41, 125,
+    10, 118, 97, 108, 105, 100, 45, 102, 117, 110, 99, 45, 110, 97, 109, 101, 45, 48, 50, 32, 61, 32, 123, 70, 85,
+    78, 95, 70, 85, 78, 40, 41, 125, 10, 118, 97, 108, 105, 100, 45, 102, 117, 110, 99, 45, 110, 97, 109, 101, 45,
+    48, 51, 32, 61, 32, 123, 70, 85, 78, 45, 70, 85, 78, 40, 41, 125, 10, 10, 35, 32, 74, 85, 78, 75, 32, 48, 32,
+    105, 115, 32, 110, 111, 116, 32, 97, 32, 118, 97, 108, 105, 100, 32, 73, 100, 101, 110, 116, 105, 102, 105,
+    101, 114, 32, 115, 116, 97, 114, 116, 10, 105, 110, 118, 97, 108, 105, 100, 45, 102, 117, 110, 99, 45, 110,
+    97, 109, 101, 45, 48, 49, 32, 61, 32, 123, 48, 70, 85, 78, 40, 41, 125, 10, 35, 32, 74, 85, 78, 75, 32, 70,
+    117, 110, 99, 116, 105, 111, 110, 32, 110, 97, 109, 101, 115, 32, 109, 97, 121, 32, 110, 111, 116, 32, 98,
+    101, 32, 108, 111, 119, 101, 114, 99, 97, 115, 101, 10, 105, 110, 118, 97, 108, 105, 100, 45, 102, 117, 110,
+    99, 45, 110, 97, 109, 101, 45, 48, 50, 32, 61, 32, 123, 102, 117, 110, 40, 41, 125, 10, 35, 32, 74, 85, 78,
+    75, 32, 70, 117, 110, 99, 116, 105, 111, 110, 32, 110, 97, 109, 101, 115, 32, 109, 97, 121, 32, 110, 111, 116,
+    32, 99, 111, 110, 116, 97, 105, 110, 32, 108, 111, 119, 101, 114, 99, 97, 115, 101, 32, 99, 104, 97, 114, 97,
+    99, 116, 101, 114, 10, 105, 110, 118, 97, 108, 105, 100, 45, 102, 117, 110, 99, 45, 110, 97, 109, 101, 45, 48,
+    51, 32, 61, 32, 123, 70, 117, 110, 40, 41, 125, 10, 35, 32, 74, 85, 78, 75, 32, 63, 32, 105, 115, 32, 110,
+    111, 116, 32, 97, 32, 118, 97, 108, 105, 100, 32, 73, 100, 101, 110, 116, 105, 102, 105, 101, 114, 32, 99,
+    104, 97, 114, 97, 99, 116, 101, 114, 10, 105, 110, 118, 97, 108, 105, 100, 45, 102, 117, 110, 99, 45, 110, 97,
+    109, 101, 45, 48, 52, 32, 61, 32, 123, 70, 85, 78, 63, 40, 41, 125, 10, 10, 35, 35, 32, 65, 114, 103, 117,
+    109, 101, 110, 116, 115, 10, 10, 112, 111, 115, 105, 116, 105, 111, 110, 97, 108, 45, 97, 114, 103, 115, 32,
+    61, 32, 123, 70, 85, 78, 40, 49, 44, 32, 34, 97, 34, 44, 32, 109, 115, 103, 41, 125, 10, 110, 97, 109, 101,
+    100, 45, 97, 114, 103, 115, 32, 61, 32, 123, 70, 85, 78, 40, 120, 58, 32, 49, 44, 32, 121, 58, 32, 34, 89, 34,
+    41, 125, 10, 100, 101, 110, 115, 101, 45, 110, 97, 109, 101, 100, 45, 97, 114, 103, 115, 32, 61, 32, 123, 70,
+    85, 78, 40, 120, 58, 49, 44, 32, 121, 58, 34, 89, 34, 41, 125, 10, 109, 105, 120, 101, 100, 45, 97, 114, 103,
+    115, 32, 61, 32, 123, 70, 85, 78, 40, 49, 44, 32, 34, 97, 34, 44, 32, 109, 115, 103, 44, 32, 120, 58, 32, 49,
+    44, 32, 121, 58, 32, 34, 89, 34, 41, 125, 10, 10, 35, 32, 69, 82, 82, 79, 82, 32, 80, 111, 115, 105, 116, 105,
+    111, 110, 97, 108, 32, 97, 114, 103, 32, 109, 117, 115, 116, 32, 110, 111, 116, 32, 102, 111, 108, 108, 111,
+    119, 32, 107, 101, 121, 119, 111, 114, 100, 32, 97, 114, 103, 115, 10, 115, 104, 117, 102, 102, 108, 101, 100,
+    45, 97, 114, 103, 115, 32, 61, 32, 123, 70, 85, 78, 40, 49, 44, 32, 120, 58, 32, 49, 44, 32, 34, 97, 34, 44,
+    32, 121, 58, 32, 34, 89, 34, 44, 32, 109, 115, 103, 41, 125, 10, 10, 35, 32, 69, 82, 82, 79, 82, 32, 78, 97,
+    109, 101, 100, 32, 97, 114, 103, 117, 109, 101, 110, 116, 115, 32, 109, 117, 115, 116, 32, 98, 101, 32, 117,
+    110, 105, 113, 117, 101, 10, 100, 117, 112, 108, 105, 99, 97, 116, 101, 45, 110, 97, 109, 101, 100, 45, 97,
+    114, 103, 115, 32, 61, 32, 123, 70, 85, 78, 40, 120, 58, 32, 49, 44, 32, 120, 58, 32, 34, 88, 34, 41, 125, 10,
+    10, 10, 35, 35, 32, 87, 104, 105, 116, 101, 115, 112, 97, 99, 101, 32, 97, 114, 111, 117, 110, 100, 32, 97,
+    114, 103, 117, 109, 101, 110, 116, 115, 10, 10, 115, 112, 97, 114, 115, 101, 45, 105, 110, 108, 105, 110, 101,
+    45, 99, 97, 108, 108, 32, 61, 32, 123, 70, 85, 78, 32, 32, 32, 32, 32, 40, 32, 32, 34, 97, 34, 32, 32, 44, 32,
+    109, 115, 103, 44, 32, 32, 32, 120, 58, 32, 49, 32, 32, 32, 41, 125, 10, 101, 109, 112, 116, 121, 45, 105,
+    110, 108, 105, 110, 101, 45, 99, 97, 108, 108, 32, 61, 32, 123, 70, 85, 78, 40, 32, 32, 41, 125, 10, 109, 117,
+    108, 116, 105, 108, 105, 110, 101, 45, 99, 97, 108, 108, 32, 61, 32, 123, 70, 85, 78, 40, 10, 32, 32, 32, 32,
+    32, 32, 32, 32, 34, 97, 34, 44, 10, 32, 32, 32, 32, 32, 32, 32, 32, 109, 115, 103, 44, 10, 32, 32, 32, 32, 32,
+    32, 32, 32, 120, 58, 32, 49, 10, 32, 32, 32, 32, 41, 125, 10, 115, 112, 97, 114, 115, 101, 45, 109, 117, 108,
+    116, 105, 108, 105, 110, 101, 45, 99, 97, 108, 108, 32, 61, 32, 123, 70, 85, 78, 10, 32, 32, 32, 32, 40, 10,
+    10, 32, 32, 32, 32, 32, 32, 32, 32, 34, 97, 34, 32, 32, 32, 32, 44, 10, 32, 32, 32, 32, 32, 32, 32, 32, 109,
+    115, 103, 10, 32, 32, 32, 32, 32, 32, 32, 32, 44, 32, 120, 58, 32, 49, 10, 32, 32, 32, 32, 41, 125, 10, 101,
+    109, 112, 116, 121, 45, 109, 117, 108, 116, 105, 108, 105, 110, 101, 45, 99, 97, 108, 108, 32, 61, 32, 123,
+    70, 85, 78, 40, 10, 10, 32, 32, 32, 32, 41, 125, 10, 10, 10, 117, 110, 105, 110, 100, 101, 110, 116, 101, 100,
+    45, 97, 114, 103, 45, 110, 117, 109, 98, 101, 114, 32, 61, 32, 123, 70, 85, 78, 40, 10, 49, 41, 125, 10, 10,
+    117, 110, 105, 110, 100, 101, 110, 116, 101, 100, 45, 97, 114, 103, 45, 115, 116, 114, 105, 110, 103, 32, 61,
+    32, 123, 70, 85, 78, 40, 10, 34, 97, 34, 41, 125, 10, 10, 117, 110, 105, 110, 100, 101, 110, 116, 101, 100,
+    45, 97, 114, 103, 45, 109, 115, 103, 45, 114, 101, 102, 32, 61, 32, 123, 70, 85, 78, 40, 10, 109, 115, 103,
+    41, 125, 10, 10, 117, 110, 105, 110, 100, 101, 110, 116, 101, 100, 45, 97, 114, 103, 45, 116, 101, 114, 109,
+    45, 114, 101, 102, 32, 61, 32, 123, 70, 85, 78, 40, 10, 45, 109, 115, 103, 41, 125, 10, 10, 117, 110, 105,
+    110, 100, 101, 110, 116, 101, 100, 45, 97, 114, 103, 45, 118, 97, 114, 45, 114, 101, 102, 32, 61, 32, 123, 70,
+    85, 78, 40, 10, 36, 118, 97, 114, 41, 125, 10, 10, 117, 110, 105, 110, 100, 101, 110, 116, 101, 100, 45, 97,
+    114, 103, 45, 99, 97, 108, 108, 32, 61, 32, 123, 70, 85, 78, 40, 10, 79, 84, 72, 69, 82, 40, 41, 41, 125, 10,
+    10, 117, 110, 105, 110, 100, 101, 110, 116, 101, 100, 45, 110, 97, 109, 101, 100, 45, 97, 114, 103, 32, 61,
+    32, 123, 70, 85, 78, 40, 10, 120, 58, 49, 41, 125, 10, 10, 117, 110, 105, 110, 100, 101, 110, 116, 101, 100,
+    45, 99, 108, 111, 115, 105, 110, 103, 45, 112, 97, 114, 101, 110, 32, 61, 32, 123, 70, 85, 78, 40, 10, 32, 32,
+    32, 32, 120, 10, 41, 125, 10, 10, 10, 10, 35, 35, 32, 79, 112, 116, 105, 111, 110, 97, 108, 32, 116, 114, 97,
+    105, 108, 105, 110, 103, 32, 99, 111, 109, 109, 97, 10, 10, 111, 110, 101, 45, 97, 114, 103, 117, 109, 101,
+    110, 116, 32, 61, 32, 123, 70, 85, 78, 40, 49, 44, 41, 125, 10, 109, 97, 110, 121, 45, 97, 114, 103, 117, 109,
+    101, 110, 116, 115, 32, 61, 32, 123, 70, 85, 78, 40, 49, 44, 32, 50, 44, 32, 51, 44, 41, 125, 10, 105, 110,
+    108, 105, 110, 101, 45, 115, 112, 97, 114, 115, 101, 45, 97, 114, 103, 115, 32, 61, 32, 123, 70, 85, 78, 40,
+    32, 32, 49, 44, 32, 32, 50, 44, 32, 32, 51, 44, 32, 32, 41, 125, 10, 109, 117, 108, 105, 116, 108, 105, 110,
+    101, 45, 97, 114, 103, 115, 32, 61, 32, 123, 70, 85, 78, 40, 10, 32, 32, 32, 32, 32, 32, 32, 32, 49, 44, 10,
+    32, 32, 32, 32, 32, 32, 32, 32, 50, 44, 10, 32, 32, 32, 32, 41, 125, 10, 109, 117, 108, 105, 116, 108, 105,
+    110, 101, 45, 115, 112, 97, 114, 115, 101, 45, 97, 114, 103, 115, 32, 61, 32, 123, 70, 85, 78, 40, 10, 10, 32,
+    32, 32, 32, 32, 32, 32, 32, 49, 10, 32, 32, 32, 32, 32, 32, 32, 32, 44, 10, 32, 32, 32, 32, 32, 32, 32, 32,
+    50, 32, 32, 32, 10, 32, 32, 32, 32, 32, 32, 32, 32, 44, 10, 32, 32, 32, 32, 41, 125, 10, 10, 10, 35, 35, 32,
+    83, 121, 110, 116, 97, 120, 32, 101, 114, 114, 111, 114, 115, 32, 102, 111, 114, 32, 116, 114, 97, 105, 108,
+    105, 110, 103, 32, 99, 111, 109, 109, 97, 10, 10, 111, 110, 101, 45, 97, 114, 103, 117, 109, 101, 110, 116,
+    32, 61, 32, 123, 70, 85, 78, 40, 49, 44, 44, 41, 125, 10, 109, 105, 115, 115, 105, 110, 103, 45, 97, 114, 103,
+    32, 61, 32, 123, 70, 85, 78, 40, 44, 41, 125, 10, 109, 105, 115, 115, 105, 110, 103, 45, 115, 112, 97, 114,
+    115, 101, 45, 97, 114, 103, 32, 61, 32, 123, 70, 85, 78, 40, 32, 32, 32, 44, 32, 32, 32, 41, 125, 10, 10, 10,
+    35, 35, 32, 87, 104, 105, 116, 101, 115, 112, 97, 99, 101, 32, 105, 110, 32, 110, 97, 109, 101, 100, 32, 97,
+    114, 103, 117, 109, 101, 110, 116, 115, 10, 10, 115, 112, 97, 114, 115, 101, 45, 110, 97, 109, 101, 100, 45,
+    97, 114, 103, 32, 61, 32, 123, 70, 85, 78, 40, 10, 32, 32, 32, 32, 32, 32, 32, 32, 120, 32, 32, 32, 58, 32,
+    32, 32, 49, 44, 10, 32, 32, 32, 32, 32, 32, 32, 32, 121, 32, 32, 32, 58, 32, 32, 32, 50, 44, 10, 32, 32, 32,
+    32, 32, 32, 32, 32, 122, 10, 32, 32, 32, 32, 32, 32, 32, 32, 58, 10, 32, 32, 32, 32, 32, 32, 32, 32, 51, 10,
+    32, 32, 32, 32, 41, 125, 10, 10, 10, 117, 110, 105, 110, 100, 101, 110, 116, 101, 100, 45, 99, 111, 108, 111,
+    110, 32, 61, 32, 123, 70, 85, 78, 40, 10, 32, 32, 32, 32, 32, 32, 32, 32, 120, 10, 58, 49, 41, 125, 10, 10,
+    117, 110, 105, 110, 100, 101, 110, 116, 101, 100, 45, 118, 97, 108, 117, 101, 32, 61, 32, 123, 70, 85, 78, 40,
+    10, 32, 32, 32, 32, 32, 32, 32, 32, 120, 58, 10, 49, 41, 125, 10]
+#guard inClass fixture_call_expressions true == false && inClass fixture_call_expressions false == true
+
+/-- census: `callee_expressions.ftl` — with_junk=true: false, with_junk=false: true -/
+def fixture_callee_expressions : Src :=
+    #[35, 35, 32, 67, 97, 108, 108, 101, 101, 115, 32, 105, 110, 32, 112, 108, 97, 99, 101, 97, 98, 108, 101, 115,
+    46, 10, 10, 102, 117, 110, 99, 116, 105, 111, 110, 45, 99, 97, 108, 108, 101, 101, 45, 112, 108, 97, 99, 101,
+    97, 98, 108, 101, 32, 61, 32, 123, 70, 85, 78, 67, 84, 73, 79, 78, 40, 41, 125, 10, 116, 101, 114, 109, 45,
+    99, 97, 108, 108, 101, 101, 45, 112, 108, 97, 99, 101, 97, 98, 108, 101, 32, 61, 32, 123, 45, 116, 101, 114,
+    109, 40, 41, 125, 10, 10, 35, 32, 69, 82, 82, 79, 82, 32, 77, 101, 115, 115, 97, 103, 101, 115, 32, 99, 97,
+    110, 110, 111, 116, 32, 98, 101, 32, 112, 97, 114, 97, 109, 101, 116, 101, 114, 105, 122, 101, 100, 46, 10,
+    109, 101, 115, 115, 97, 103, 101, 45, 99, 97, 108, 108, 101, 101, 45, 112, 108, 97, 99, 101, 97, 98, 108, 101,
+    32, 61, 32, 123, 109, 101, 115, 115, 97, 103, 101, 40, 41, 125, 10, 35, 32, 69, 82, 82, 79, 82, 32, 69, 113,
+    117, 105, 118, 97, 108, 101, 110, 116, 32, 116, 111, 32, 97, 32, 77, 101, 115, 115, 97, 103, 101, 82, 101,
+    102, 101, 114, 101, 110, 99, 101, 32, 99, 97, 108, 108, 101, 101, 46, 10, 109, 105, 120, 101, 100, 45, 99, 97,
+    115, 101, 45, 99, 97, 108, 108, 101, 101, 45, 112, 108, 97, 99, 101, 97, 98, 108, 101, 32, 61, 32, 123, 70,
+    117, 110, 99, 116, 105, 111, 110, 40, 41, 125, 10, 35, 32, 69, 82, 82, 79, 82, 32, 77, 101, 115, 115, 97, 103,
+    101, 32, 97, 116, 116, 114, 105, 98, 117, 116, 101, 115, 32, 99, 97, 110, 110, 111, 116, 32, 98, 101, 32, 112,
+    97, 114, 97, 109, 101, 116, 101, 114, 105, 122, 101, 100, 46, 10, 109, 101, 115, 115, 97, 103, 101, 45, 97,
+    116, 116, 114, 45, 99, 97, 108, 108, 101, 101, 45, 112, 108, 97, 99, 101, 97, 98, 108, 101, 32, 61, 32, 123,
+    109, 101, 115, 115, 97, 103, 101, 46, 97, 116, 116, 114, 40, 41, 125, 10, 35, 32, 69, 82, 82, 79, 82, 32, 84,
+    101, 114, 109, 32, 97, 116, 116, 114, 105, 98, 117, 116, 101, 115, 32, 109, 97, 121, 32, 110, 111, 116, 32,
+    98, 101, 32, 117, 115, 101, 100, 32, 105, 110, 32, 80, 108, 97, 99, 101, 97, 98, 108, 101, 115, 46, 10, 116,
+    101, 114, 109, 45, 97, 116, 116, 114, 45, 99, 97, 108, 108, 101, 101, 45, 112, 108, 97, 99, 101, 97, 98, 108,
+    101, 32, 61, 32, 123, 45, 116, 101, 114, 109, 46, 97, 116, 116, 114, 40, 41, 125, 10, 35, 32, 69, 82, 82, 79,
+    82, 32, 86, 97, 114, 105, 97, 98, 108, 101, 115, 32, 99, 97, 110, 110, 111, 116, 32, 98, 101, 32, 112, 97,
+    114, 97, 109, 101, 116, 101, 114, 105, 122, 101, 100, 46, 10, 118, 97, 114, 105, 97, 98, 108, 101, 45, 99, 97,
+    108, 108, 101, 101, 45, 112, 108, 97, 99, 101, 97, 98, 108, 101, 32, 61, 32, 123, 36, 118, 97, 114, 105, 97,
+    98, 108, 101, 40, 41, 125, 10, 10, 10, 35, 35, 32, 67, 97, 108, 108, 101, 101, 115, 32, 105, 110, 32, 115,
+    101, 108, 101, 99, 116, 111, 114, 115, 46, 10, 10, 102, 117, 110, 99, 116, 105, 111, 110, 45, 99, 97, 108,
+    108, 101, 101, 45, 115, 101, 108, 101, 99, 116, 111, 114, 32, 61, 32, 123, 70, 85, 78, 67, 84, 73, 79, 78, 40,
+    41, 32, 45, 62, 10, 32, 32, 32, 42, 91, 107, 101, 121, 93, 32, 86, 97, 108, 117, 101, 10, 125, 10, 116, 101,
+    114, 109, 45, 97, 116, 116, 114, 45, 99, 97, 108, 108, 101, 101, 45, 115, 101, 108, 101, 99, 116, 111, 114,
+    32, 61, 32, 123, 45, 116, 101, 114, 109, 46, 97, 116, 116, 114, 40, 41, 32, 45, 62, 10, 32, 32, 32, 42, 91,
+    107, 101, 121, 93, 32, 86, 97, 108, 117, 101, 10, 125, 10, 10, 35, 32, 69, 82, 82, 79, 82, 32, 77, 101, 115,
+    115, 97, 103, 101, 115, 32, 99, 97, 110, 110, 111, 116, 32, 98, 101, 32, 112, 97, 114, 97, 109, 101, 116, 101,
+    114, 105, 122, 101, 100, 46, 10, 109, 101, 115, 115, 97, 103, 101, 45, 99, 97, 108, 108, 101, 101, 45, 115,
+    101, 108, 101, 99, 116, 111, 114, 32, 61, 32, 123, 109, 101, 115, 115, 97, 103, 101, 40, 41, 32, 45, 62, 10,
+    32, 32, 32, 42, 91, 107, 101, 121, 93, 32, 86, 97, 108, 117, 101, 10, 125, 10, 35, 32, 69, 82, 82, 79, 82, 32,
+    69, 113, 117, 105, 118, 97, 108, 101, 110, 116, 32, 116, 111, 32, 97, 32, 77, 101, 115, 115, 97, 103, 101, 82,
+    101, 102, 101, 114, 101, 110, 99, 101, 32, 99, 97, 108, 108, 101, 101, 46, 10, 109, 105, 120, 101, 100, 45,
+    99, 97, 115, 101, 45, 99, 97, 108, 108, 101, 101, 45, 115, 101, 108, 101, 99, 116, 111, 114, 32, 61, 32, 123,
+    70, 117, 110, 99, 116, 105, 111, 110, 40, 41, 32, 45, 62, 10, 32, 32, 32, 42, 91, 107, 101, 121, 93, 32, 86,
+    97, 108, 117, 101, 10, 125, 10, 35, 32, 69, 82, 82, 79, 82, 32, 77, 101, 115, 115, 97, 103, 101, 32, 97, 116,
+    116, 114, 105, 98, 117, 116, 101, 115, 32, 99, 97, 110, 110, 111, 116, 32, 98, 101, 32, 112, 97, 114, 97, 109,
+    101, 116, 101, 114, 105, 122, 101, 100, 46, 10, 109, 101, 115, 115, 97, 103, 101, 45, 97, 116, 116, 114, 45,
+    99, 97, 108, 108, 101, 101, 45, 115, 101, 108, 101, 99, 116, 111, 114, 32, 61, 32, 123, 109, 101, 115, 115,
+    97, 103, 101, 46, 97, 116, 116, 114, 40, 41, 32, 45, 62, 10, 32, 32, 32, 42, 91, 107, 101, 121, 93, 32, 86,
+    97, 108, 117, 101, 10, 125, 10, 35, 32, 69, 82, 82, 79, 82, 32, 84, 101, 114, 109, 32, 118, 97, 108, 117, 101,
+    115, 32, 109, 97, 121, 32, 110, 111, 116, 32, 98, 101, 32, 117, 115, 101, 100, 32, 97, 115, 32, 115, 101, 108,
+    101, 99, 116, 111, 114, 115, 46, 10, 116, 101, 114, 109, 45, 99, 97, 108, 108, 101, 101, 45, 115, 101, 108,
+    101, 99, 116, 111, 114, 32, 61, 32, 123, 45, 116, 101, 114, 109, 40, 41, 32, 45, 62, 10, 32, 32, 32, 42, 91,
+    107, 101, 121, 93, 32, 86, 97, 108, 117, 101, 10, 125, 10, 35, 32, 69, 82, 82, 79, 82, 32, 86, 97, 114, 105,
+    97, 98, 108, 101, 115, 32, 99, 97, 110, 110, 111, 116, 32, 98, 101, 32, 112, 97, 114, 97, 109, 101, 116, 101,
+    114, 105, 122, 101, 100, 46, 10, 118, 97, 114, 105, 97, 98, 108, 101, 45, 99, 97, 108, 108, 101, 101, 45, 115,
+    101, 108, 101, 99, 116, 111, 114, 32, 61, 32, 123, 36, 118, 97, 114, 105, 97, 98, 108, 101, 40, 41, 32, 45,
+    62, 10, 32, 32, 32, 42, 91, 107, 101, 121, 93, 32, 86, 97, 108, 117, 101, 10, 125, 10]
+#guard inClass fixture_callee_expressions true == false && inClass fixture_callee_expressions false == true
+
+/-- census: `comments.ftl` — with_junk=true: false, with_junk=false: true -/
+def fixture_comments : Src :=
+    #[35, 32, 83, 116, 97, 110, 100, 97, 108, 111, 110, 101, 32, 67, 111, 109, 109, 101, 110, 116, 10, 10, 35, 32,
+    77, 101, 115, 115, 97, 103, 101, 32, 67, 111, 109, 109, 101, 110, 116, 10, 102, 111, 111, 32, 61, 32, 70, 111,
+    111, 10, 10, 35, 32, 84, 101, 114, 109, 32, 67, 111, 109, 109, 101, 110, 116, 10, 35, 32, 119, 105, 116, 104,
+    32, 97, 32, 98, 108, 97, 110, 107, 32, 108, 97, 115, 116, 32, 108, 105, 110, 101, 46, 10, 35, 10, 45, 116,
+    101, 114, 109, 32, 61, 32, 84, 101, 114, 109, 10, 10, 35, 32, 65, 110, 111, 116, 104, 101, 114, 32, 115, 116,
+    97, 110, 100, 97, 108, 111, 110, 101, 10, 35, 32, 10, 35, 32, 32, 32, 32, 32, 32, 119, 105, 116, 104, 32, 105,
+    110, 100, 101, 110, 116, 10, 35, 35, 32, 71, 114, 111, 117, 112, 32, 67, 111, 109, 109, 101, 110, 116, 10, 35,
+    35, 35, 32, 82, 101, 115, 111, 117, 114, 99, 101, 32, 67, 111, 109, 109, 101, 110, 116, 10, 10, 35, 32, 69,
+    114, 114, 111, 114, 115, 10, 35, 101, 114, 114, 111, 114, 10, 35, 35, 101, 114, 114, 111, 114, 10, 35, 35, 35,
+    101, 114, 114, 111, 114, 10]
+#guard inClass fixture_comments true == false && inClass fixture_comments false == true
+
+/-- census: `cr.ftl` — with_junk=true: false, with_junk=false: false -/
+def fixture_cr : Src :=
+    #[35, 35, 35, 32, 84, 104, 105, 115, 32, 101, 110, 116, 105, 114, 101, 32, 102, 105, 108, 101, 32, 117, 115,
+    101, 115, 32, 67, 82, 32, 97, 115, 32, 69, 79, 76, 46, 13, 13, 101, 114, 114, 48, 49, 32, 61, 32, 86, 97, 108,
+    117, 101, 32, 48, 49, 13, 101, 114, 114, 48, 50, 32, 61, 32, 86, 97, 108, 117, 101, 32, 48, 50, 13, 13, 101,
+    114, 114, 48, 51, 32, 61, 13, 13, 32, 32, 32, 32, 86, 97, 108, 117, 101, 32, 48, 51, 13, 32, 32, 32, 32, 67,
+    111, 110, 116, 105, 110, 117, 101, 100, 13, 13, 32, 32, 32, 32, 46, 116, 105, 116, 108, 101, 32, 61, 32, 84,
+    105, 116, 108, 101, 13, 13, 101, 114, 114, 48, 52, 32, 61, 32, 123, 32, 34, 115, 116, 114, 13, 13, 101, 114,
+    114, 48, 53, 32, 61, 32, 123, 32, 36, 115, 101, 108, 32, 45, 62, 32, 125, 13]
+#guard inClass fixture_cr true == false && inClass fixture_cr false == false
+example : (inClass fixture_cr true == false && inClass fixture_cr false == false) = true := by decide +kernel
+
+/-- census: `crlf.ftl` — with_junk=true: false, with_junk=false: false -/
+def fixture_crlf : Src :=
+    #[13, 10, 35, 32, 84, 101, 114, 109, 32, 67, 111, 109, 109, 101, 110, 116, 13, 10, 35, 32, 119, 105, 116, 104,
+    32, 97, 32, 98, 108, 97, 110, 107, 32, 108, 97, 115, 116, 32, 108, 105, 110, 101, 46, 13, 10, 35, 13, 10, 107,
+    101, 121, 48, 49, 32, 61, 32, 86, 97, 108, 117, 101, 32, 48, 49, 13, 10, 107, 101, 121, 48, 50, 32, 61, 13,
+    10, 13, 10, 32, 32, 32, 32, 86, 97, 108, 117, 101, 32, 48, 50, 13, 10, 32, 32, 32, 32, 67, 111, 110, 116, 105,
+    110, 117, 101, 100, 13, 10, 13, 10, 32, 32, 32, 32, 46, 116, 105, 116, 108, 101, 32, 61, 32, 84, 105, 116,
+    108, 101, 13, 10, 13, 10, 35, 32, 69, 82, 82, 79, 82, 32, 85, 110, 99, 108, 111, 115, 101, 100, 32, 83, 116,
+    114, 105, 110, 103, 76, 105, 116, 101, 114, 97, 108, 13, 10, 101, 114, 114, 48, 51, 32, 61, 32, 123, 32, 34,
+    115, 116, 114, 13, 10, 13, 10, 35, 32, 69, 82, 82, 79, 82, 32, 77, 105, 115, 115, 105, 110, 103, 32, 110, 101,
+    119, 108, 105, 110, 101, 32, 97, 102, 116, 101, 114, 32, 45, 62, 46, 13, 10, 101, 114, 114, 48, 52, 32, 61,
+    32, 123, 32, 36, 115, 101, 108, 32, 45, 62, 32, 125, 13, 10]
+#guard inClass fixture_crlf true == false && inClass fixture_crlf false == false
+
+/-- census: `eof_comment.ftl` — with_junk=true: true, with_junk=false: true -/
+def fixture_eof_comment : Src :=
+    #[35, 35, 35, 32, 78, 79, 84, 69, 58, 32, 68, 105, 115, 97, 98, 108, 101, 32, 102, 105, 110, 97, 108, 32, 110,
+    101, 119, 108, 105, 110, 101, 32, 105, 110, 115, 101, 114, 116, 105, 111, 110, 32, 119, 104, 101, 110, 32,
+    101, 100, 105, 116, 105, 110, 103, 32, 116, 104, 105, 115, 32, 102, 105, 108, 101, 46, 10, 10, 35, 32, 78,
+    111, 32, 69, 79, 76]
+#guard inClass fixture_eof_comment true == true && inClass fixture_eof_comment false == true
+example : (inClass fixture_eof_comment true == true && inClass fixture_eof_comment false == true) = true := by decide +kernel
+
+/-- census: `eof_empty.ftl` — with_junk=true: true, with_junk=false: true -/
+def fixture_eof_empty : Src :=
+    #[]
+#guard inClass fixture_eof_empty true == true && inClass fixture_eof_empty false == true
+example : (inClass fixture_eof_empty true == true && inClass fixture_eof_empty false == true) = true := by decide +kernel
+
+/-- census: `eof_id.ftl` — with_junk=true: false, with_junk=false: true -/
+def fixture_eof_id : Src :=
+    #[35, 35, 35, 32, 78, 79, 84, 69, 58, 32, 68, 105, 115, 97, 98, 108, 101, 32, 102, 105, 110, 97, 108, 32, 110,
+    101, 119, 108, 105, 110, 101, 32, 105, 110, 115, 101, 114, 116, 105, 111, 110, 32, 119, 104, 101, 110, 32,
+    101, 100, 105, 116, 105, 110, 103, 32, 116, 104, 105, 115, 32, 102, 105, 108, 101, 46, 10, 10, 109, 101, 115,
+    115, 97, 103, 101, 45, 105, 100]
+#guard inClass fixture_eof_id true == false && inClass fixture_eof_id false == true
+example : (inClass fixture_eof_id true == false && inClass fixture_eof_id false == true) = true := by decide +kernel
+
+/-- census: `eof_id_equals.ftl` — with_junk=true: false, with_junk=false: true -/
+def fixture_eof_id_equals : Src :=
+    #[35, 35, 35, 32, 78, 79, 84, 69, 58, 32, 68, 105, 115, 97, 98, 108, 101, 32, 102, 105, 110, 97, 108, 32, 110,
+    101, 119, 108, 105, 110, 101, 32, 105, 110, 115, 101, 114, 116, 105, 111, 110, 32, 119, 104, 101, 110, 32,
+    101, 100, 105, 116, 105, 110, 103, 32, 116, 104, 105, 115, 32, 102, 105, 108, 101, 46, 10, 10, 109, 101, 115,
+    115, 97, 103, 101, 45, 105, 100, 32, 61]
+#guard inClass fixture_eof_id_equals true == false && inClass fixture_eof_id_equals false == true
+example : (inClass fixture_eof_id_equals true == false && inClass fixture_eof_id_equals false == true) = true := by decide +kernel
+
+/-- census: `eof_junk.ftl` — with_junk=true: false, with_junk=false: true -/
+def fixture_eof_junk : Src :=
+    #[35, 35, 35, 32, 78, 79, 84, 69, 58, 32, 68, 105, 115, 97, 98, 108, 101, 32, 102, 105, 110, 97, 108, 32, 110,
+    101, 119, 108, 105, 110, 101, 32, 105, 110, 115, 101, 114, 116, 105, 111, 110, 32, 119, 104, 101, 110, 32,
+    101, 100, 105, 116, 105, 110, 103, 32, 116, 104, 105, 115, 32, 102, 105, 108, 101, 46, 10, 10, 48, 48, 48]
+#guard inClass fixture_eof_junk true == false && inClass fixture_eof_junk false == true
+example : (inClass fixture_eof_junk true == false && inClass fixture_eof_junk false == true) = true := by decide +kernel
+
+/-- census: `eof_value.ftl` — with_junk=true: true, with_junk=false: true -/
+def fixture_eof_value : Src :=
+    #[35, 35, 35, 32, 78, 79, 84, 69, 58, 32, 68, 105, 115, 97, 98, 108, 101, 32, 102, 105, 110, 97, 108, 32, 110,
+    101, 119, 108, 105, 110, 101, 32, 105, 110, 115, 101, 114, 116, 105, 111, 110, 32, 119, 104, 101, 110, 32,
+    101, 100, 105, 116, 105, 110, 103, 32, 116, 104, 105, 115, 32, 102, 105, 108, 101, 46, 10, 10, 110, 111, 45,
+    101, 111, 108, 32, 61, 32, 78, 111, 32, 69, 79, 76]
+#guard inClass fixture_eof_value true == true && inClass fixture_eof_value false == true
+example : (inClass fixture_eof_value true == true && inClass fixture_eof_value false == true) = true := by decide +kernel
+
+/-- census: `escaped_characters.ftl` — with_junk=true: false, with_junk=false: true -/
+def fixture_escaped_characters : Src :=
+    #[35, 35, 32, 76, 105, 116, 101, 114, 97, 108, 32, 116, 101, 120, 116, 10, 116, 101, 120, 116, 45, 98, 97, 99,
+    107, 115, 108, 97, 115, 104, 45, 111, 110, 101, 32, 61, 32, 86, 97, 108, 117, 101, 32, 119, 105, 116, 104, 32,
+    92, 32, 97, 32, 98, 97, 99, 107, 115, 108, 97, 115, 104, 10, 116, 101, 120, 116, 45, 98, 97, 99, 107, 115,
+    108, 97, 115, 104, 45, 116, 119, 111, 32, 61, 32, 86, 97, 108, 117, 101, 32, 119, 105, 116, 104, 32, 92, 92,
+    32, 116, 119, 111, 32, 98, 97, 99, 107, 115, 108, 97, 115, 104, 101, 115, 10, 116, 101, 120, 116, 45, 98, 97,
+    99, 107, 115, 108, 97, 115, 104, 45, 98, 114, 97, 99, 101, 32, 61, 32, 86, 97, 108, 117, 101, 32, 119, 105,
+    116, 104, 32, 92, 123, 112, 108, 97, 99, 101, 97, 98, 108, 101, 125, 10, 116, 101, 120, 116, 45, 98, 97, 99,
+    107, 115, 108, 97, 115, 104, 45, 117, 32, 61, 32, 92, 117, 48, 48, 52, 49, 10, 116, 101, 120, 116, 45, 98, 97,
+    99, 107, 115, 108, 97, 115, 104, 45, 98, 97, 99, 107, 115, 108, 97, 115, 104, 45, 117, 32, 61, 32, 92, 92,
+    117, 48, 48, 52, 49, 10, 10, 35, 35, 32, 83, 116, 114, 105, 110, 103, 32, 108, 105, 116, 101, 114, 97, 108,
+    115, 10, 113, 117, 111, 116, 101, 45, 105, 110, 45, 115, 116, 114, 105, 110, 103, 32, 61, 32, 123, 34, 92, 34,
+    34, 125, 10, 98, 97, 99, 107, 115, 108, 97, 115, 104, 45, 105, 110, 45, 115, 116, 114, 105, 110, 103, 32, 61,
+    32, 123, 34, 92, 92, 34, 125, 10, 35, 32, 69, 82, 82, 79, 82, 32, 77, 105, 115, 109, 97, 116, 99, 104, 101,
+    100, 32, 113, 117, 111, 116, 101, 10, 109, 105, 115, 109, 97, 116, 99, 104, 101, 100, 45, 113, 117, 111, 116,
+    101, 32, 61, 32, 123, 34, 92, 92, 34, 34, 125, 10, 35, 32, 69, 82, 82, 79, 82, 32, 85, 110, 107, 110, 111,
+    119, 110, 32, 101, 115, 99, 97, 112, 101, 10, 117, 110, 107, 110, 111, 119, 110, 45, 101, 115, 99, 97, 112,
+    101, 32, 61, 32, 123, 34, 92, 120, 34, 125, 10, 35, 32, 69, 82, 82, 79, 82, 32, 77, 117, 108, 116, 105, 108,
+    105, 110, 101, 32, 108, 105, 116, 101, 114, 97, 108, 10, 105, 110, 118, 97, 108, 105, 100, 45, 109, 117, 108,
+    116, 105, 108, 105, 110, 101, 45, 108, 105, 116, 101, 114, 97, 108, 32, 61, 32, 123, 34, 10, 32, 34, 125, 10,
+    10, 35, 35, 32, 85, 110, 105, 99, 111, 100, 101, 32, 101, 115, 99, 97, 112, 101, 115, 10, 115, 116, 114, 105,
+    110, 103, 45, 117, 110, 105, 99, 111, 100, 101, 45, 52, 100, 105, 103, 105, 116, 115, 32, 61, 32, 123, 34, 92,
+    117, 48, 48, 52, 49, 34, 125, 10, 101, 115, 99, 97, 112, 101, 45, 117, 110, 105, 99, 111, 100, 101, 45, 52,
+    100, 105, 103, 105, 116, 115, 32, 61, 32, 123, 34, 92, 92, 117, 48, 48, 52, 49, 34, 125, 10, 115, 116, 114,
+    105, 110, 103, 45, 117, 110, 105, 99, 111, 100, 101, 45, 54, 100, 105, 103, 105, 116, 115, 32, 61, 32, 123,
+    34, 92, 85, 48, 49, 70, 54, 48, 50, 34, 125, 10, 101, 115, 99, 97, 112, 101, 45, 117, 110, 105, 99, 111, 100,
+    101, 45, 54, 100, 105, 103, 105, 116, 115, 32, 61, 32, 123, 34, 92, 92, 85, 48, 49, 70, 54, 48, 50, 34, 125,
+    10, 10, 35, 32, 79, 75, 32, 84, 104, 101, 32, 116, 114, 97, 105, 108, 105, 110, 103, 32, 34, 48, 48, 34, 32,
+    105, 115, 32, 112, 97, 114, 116, 32, 111, 102, 32, 116, 104, 101, 32, 108, 105, 116, 101, 114, 97, 108, 32,
+    118, 97, 108, 117, 101, 46, 10, 115, 116, 114, 105, 110, 103, 45, 116, 111, 111, 45, 109, 97, 110, 121, 45,
+    52, 100, 105, 103, 105, 116, 115, 32, 61, 32, 123, 34, 92, 117, 48, 48, 52, 49, 48, 48, 34, 125, 10, 35, 32,
+    79, 75, 32, 84, 104, 101, 32, 116, 114, 97, 105, 108, 105, 110, 103, 32, 34, 48, 48, 34, 32, 105, 115, 32,
+    112, 97, 114, 116, 32, 111, 102, 32, 116, 104, 101, 32, 108, 105, 116, 101, 114, 97, 108, 32, 118, 97, 108,
+    117, 101, 46, 10, 115, 116, 114, 105, 110, 103, 45, 116, 111, 111, 45, 109, 97, 110, 121, 45, 54, 100, 105,
+    103, 105, 116, 115, 32, 61, 32, 123, 34, 92, 85, 48, 49, 70, 54, 48, 50, 48, 48, 34, 125, 10, 10, 35, 32, 69,
+    82, 82, 79, 82, 32, 84, 111, 111, 32, 102, 101, 119, 32, 104, 101, 120, 32, 100, 105, 103, 105, 116, 115, 32,
+    97, 102, 116, 101, 114, 32, 92, 117, 46, 10, 115, 116, 114, 105, 110, 103, 45, 116, 111, 111, 45, 102, 101,
+    119, 45, 52, 100, 105, 103, 105, 116, 115, 32, 61, 32, 123, 34, 92, 117, 52, 49, 34, 125, 10, 35, 32, 69, 82,
+    82, 79, 82, 32, 84, 111, 111, 32, 102, 101, 119, 32, 104, 101, 120, 32, 100, 105, 103, 105, 116, 115, 32, 97,
+    102, 116, 101, 114, 32, 92, 85, 46, 10, 115, 116, 114, 105, 110, 103, 45, 116, 111, 111, 45, 102, 101, 119,
+    45, 54, 100, 105, 103, 105, 116, 115, 32, 61, 32, 123, 34, 92, 85, 49, 70, 54, 48, 50, 34, 125, 10, 10, 35,
+    35, 32, 76, 105, 116, 101, 114, 97, 108, 32, 98, 114, 97, 99, 101, 115, 10, 98, 114, 97, 99, 101, 45, 111,
+    112, 101, 110, 32, 61, 32, 65, 110, 32, 111, 112, 101, 110, 105, 110, 103, 32, 123, 34, 123, 34, 125, 32, 98,
+    114, 97, 99, 101, 46, 10, 98, 114, 97, 99, 101, 45, 99, 108, 111, 115, 101, 32, 61, 32, 65, 32, 99, 108, 111,
+    115, 105, 110, 103, 32, 123, 34, 125, 34, 125, 32, 98, 114, 97, 99, 101, 46, 10]
+#guard inClass fixture_escaped_characters true == false && inClass fixture_escaped_characters false == true
+
+/-- census: `junk.ftl` — with_junk=true: false, with_junk=false: true -/
+def fixture_junk : Src :=
+    #[35, 35, 32, 84, 119, 111, 32, 97, 100, 106, 97, 99, 101, 110, 116, 32, 74, 117, 110, 107, 115, 46, 10, 101,
+    114, 114, 48, 49, 32, 61, 32, 123, 49, 120, 125, 10, 101, 114, 114, 48, 50, 32, 61, 32, 123, 50, 120, 125, 10,
+    10, 35, 32, 65, 32, 115, 105, 110, 103, 108, 101, 32, 74, 117, 110, 107, 46, 10, 101, 114, 114, 48, 51, 32,
+    61, 32, 123, 49, 120, 10, 50, 10, 10, 35, 32, 65, 32, 115, 105, 110, 103, 108, 101, 32, 74, 117, 110, 107, 46,
+    10, 196, 133, 61, 73, 110, 118, 97, 108, 105, 100, 32, 105, 100, 101, 110, 116, 105, 102, 105, 101, 114, 10,
+    196, 135, 61, 65, 110, 111, 116, 104, 101, 114, 32, 111, 110, 101, 10, 10, 35, 32, 84, 104, 101, 32, 67, 79,
+    77, 77, 69, 78, 84, 32, 101, 110, 100, 115, 32, 116, 104, 105, 115, 32, 106, 117, 110, 107, 46, 10, 101, 114,
+    114, 48, 52, 32, 61, 32, 123, 10, 35, 32, 67, 79, 77, 77, 69, 78, 84, 10, 10, 35, 32, 84, 104, 101, 32, 67,
+    79, 77, 77, 69, 78, 84, 32, 101, 110, 100, 115, 32, 116, 104, 105, 115, 32, 106, 117, 110, 107, 46, 10, 35,
+    32, 84, 104, 101, 32, 99, 108, 111, 115, 105, 110, 103, 32, 98, 114, 97, 99, 101, 32, 105, 115, 32, 97, 32,
+    115, 101, 112, 97, 114, 97, 116, 101, 32, 74, 117, 110, 107, 46, 10, 101, 114, 114, 48, 52, 32, 61, 32, 123,
+    10, 35, 32, 67, 79, 77, 77, 69, 78, 84, 10, 125, 10]
+#guard inClass fixture_junk true == false && inClass fixture_junk false == true
+
+/-- census: `leading_dots.ftl` — with_junk=true: false, with_junk=false: true -/
+def fixture_leading_dots : Src :=
+    #[107, 101, 121, 48, 49, 32, 61, 32, 46, 86, 97, 108, 117, 101, 10, 107, 101, 121, 48, 50, 32, 61, 32, 226,
+    128, 166, 86, 97, 108, 117, 101, 10, 107, 101, 121, 48, 51, 32, 61, 32, 123, 34, 46, 34, 125, 86, 97, 108,
+    117, 101, 10, 107, 101, 121, 48, 52, 32, 61, 10, 32, 32, 32, 32, 123, 34, 46, 34, 125, 86, 97, 108, 117, 101,
+    10, 10, 107, 101, 121, 48, 53, 32, 61, 32, 86, 97, 108, 117, 101, 10, 32, 32, 32, 32, 123, 34, 46, 34, 125,
+    67, 111, 110, 116, 105, 110, 117, 101, 100, 10, 10, 107, 101, 121, 48, 54, 32, 61, 32, 46, 86, 97, 108, 117,
+    101, 10, 32, 32, 32, 32, 123, 34, 46, 34, 125, 67, 111, 110, 116, 105, 110, 117, 101, 100, 10, 10, 35, 32, 77,
+    69, 83, 83, 65, 71, 69, 32, 40, 118, 97, 108, 117, 101, 32, 61, 32, 34, 86, 97, 108, 117, 101, 34, 44, 32, 97,
+    116, 116, 114, 105, 98, 117, 116, 101, 115, 32, 61, 32, 91, 93, 41, 10, 35, 32, 74, 85, 78, 75, 32, 40, 97,
+    116, 116, 114, 32, 46, 67, 111, 110, 116, 105, 110, 117, 101, 100, 34, 32, 109, 117, 115, 116, 32, 104, 97,
+    118, 101, 32, 97, 32, 118, 97, 108, 117, 101, 41, 10, 107, 101, 121, 48, 55, 32, 61, 32, 86, 97, 108, 117,
+    101, 10, 32, 32, 32, 32, 46, 67, 111, 110, 116, 105, 110, 117, 101, 100, 10, 10, 35, 32, 74, 85, 78, 75, 32,
+    40, 97, 116, 116, 114, 32, 46, 86, 97, 108, 117, 101, 32, 109, 117, 115, 116, 32, 104, 97, 118, 101, 32, 97,
+    32, 118, 97, 108, 117, 101, 41, 10, 107, 101, 121, 48, 56, 32, 61, 10, 32, 32, 32, 32, 46, 86, 97, 108, 117,
+    101, 10, 10, 35, 32, 74, 85, 78, 75, 32, 40, 97, 116, 116, 114, 32, 46, 86, 97, 108, 117, 101, 32, 109, 117,
+    115, 116, 32, 104, 97, 118, 101, 32, 97, 32, 118, 97, 108, 117, 101, 41, 10, 107, 101, 121, 48, 57, 32, 61,
+    10, 32, 32, 32, 32, 46, 86, 97, 108, 117, 101, 10, 32, 32, 32, 32, 67, 111, 110, 116, 105, 110, 117, 101, 100,
+    10, 10, 107, 101, 121, 49, 48, 32, 61, 10, 32, 32, 32, 32, 46, 86, 97, 108, 117, 101, 32, 61, 32, 119, 104,
+    105, 99, 104, 32, 105, 115, 32, 97, 110, 32, 97, 116, 116, 114, 105, 98, 117, 116, 101, 10, 32, 32, 32, 32,
+    67, 111, 110, 116, 105, 110, 117, 101, 100, 10, 10, 107, 101, 121, 49, 49, 32, 61, 10, 32, 32, 32, 32, 123,
+    34, 46, 34, 125, 86, 97, 108, 117, 101, 32, 61, 32, 119, 104, 105, 99, 104, 32, 108, 111, 111, 107, 115, 32,
+    108, 105, 107, 101, 32, 97, 110, 32, 97, 116, 116, 114, 105, 98, 117, 116, 101, 10, 32, 32, 32, 32, 67, 111,
+    110, 116, 105, 110, 117, 101, 100, 10, 10, 107, 101, 121, 49, 50, 32, 61, 10, 32, 32, 32, 32, 46, 97, 99, 99,
+    101, 115, 115, 107, 101, 121, 32, 61, 10, 32, 32, 32, 32, 65, 10, 10, 107, 101, 121, 49, 51, 32, 61, 10, 32,
+    32, 32, 32, 46, 97, 116, 116, 114, 105, 98, 117, 116, 101, 32, 61, 32, 46, 86, 97, 108, 117, 101, 10, 10, 107,
+    101, 121, 49, 52, 32, 61, 10, 32, 32, 32, 32, 46, 97, 116, 116, 114, 105, 98, 117, 116, 101, 32, 61, 10, 32,
+    32, 32, 32, 32, 32, 32, 32, 32, 123, 34, 46, 34, 125, 86, 97, 108, 117, 101, 10, 10, 107, 101, 121, 49, 53,
+    32, 61, 10, 32, 32, 32, 32, 123, 32, 49, 32, 45, 62, 10, 32, 32, 32, 32, 32, 32, 32, 32, 91, 111, 110, 101,
+    93, 32, 46, 86, 97, 108, 117, 101, 10, 32, 32, 32, 32, 32, 32, 32, 42, 91, 111, 116, 104, 101, 114, 93, 10,
+    32, 32, 32, 32, 32, 32, 32, 32, 32, 32, 32, 32, 123, 34, 46, 34, 125, 86, 97, 108, 117, 101, 10, 32, 32, 32,
+    32, 125, 10, 10, 35, 32, 74, 85, 78, 75, 32, 40, 118, 97, 114, 105, 97, 110, 116, 32, 109, 117, 115, 116, 32,
+    104, 97, 118, 101, 32, 97, 32, 118, 97, 108, 117, 101, 41, 10, 107, 101, 121, 49, 54, 32, 61, 10, 32, 32, 32,
+    32, 123, 32, 49, 32, 45, 62, 10, 32, 32, 32, 32, 32, 32, 32, 42, 91, 111, 110, 101, 93, 10, 32, 32, 32, 32,
+    32, 32, 32, 32, 32, 32, 32, 46, 86, 97, 108, 117, 101, 10, 32, 32, 32, 32, 125, 10, 10, 35, 32, 74, 85, 78,
+    75, 32, 40, 117, 110, 99, 108, 111, 115, 101, 100, 32, 112, 108, 97, 99, 101, 97, 98, 108, 101, 41, 10, 107,
+    101, 121, 49, 55, 32, 61, 10, 32, 32, 32, 32, 123, 32, 49, 32, 45, 62, 10, 32, 32, 32, 32, 32, 32, 32, 42, 91,
+    111, 110, 101, 93, 32, 86, 97, 108, 117, 101, 10, 32, 32, 32, 32, 32, 32, 32, 32, 32, 32, 32, 46, 67, 111,
+    110, 116, 105, 110, 117, 101, 100, 10, 32, 32, 32, 32, 125, 10, 10, 35, 32, 74, 85, 78, 75, 32, 40, 97, 116,
+    116, 114, 32, 46, 86, 97, 108, 117, 101, 32, 109, 117, 115, 116, 32, 104, 97, 118, 101, 32, 97, 32, 118, 97,
+    108, 117, 101, 41, 10, 107, 101, 121, 49, 56, 32, 61, 10, 46, 86, 97, 108, 117, 101, 10, 10, 107, 101, 121,
+    49, 57, 32, 61, 10, 46, 97, 116, 116, 114, 105, 98, 117, 116, 101, 32, 61, 32, 86, 97, 108, 117, 101, 10, 32,
+    32, 32, 32, 67, 111, 110, 116, 105, 110, 117, 101, 100, 10, 10, 107, 101, 121, 50, 48, 32, 61, 10, 123, 34,
+    46, 34, 125, 86, 97, 108, 117, 101, 10]
+#guard inClass fixture_leading_dots true == false && inClass fixture_leading_dots false == true
+
+/-- census: `literal_expressions.ftl` — with_junk=true: true, with_junk=false: true -/
+def fixture_literal_expressions : Src :=
+    #[115, 116, 114, 105, 110, 103, 45, 101, 120, 112, 114, 101, 115, 115, 105, 111, 110, 32, 61, 32, 123, 34, 97,
+    98, 99, 34, 125, 10, 110, 117, 109, 98, 101, 114, 45, 101, 120, 112, 114, 101, 115, 115, 105, 111, 110, 32,
+    61, 32, 123, 49, 50, 51, 125, 10, 110, 117, 109, 98, 101, 114, 45, 101, 120, 112, 114, 101, 115, 115, 105,
+    111, 110, 32, 61, 32, 123, 45, 51, 46, 49, 52, 125, 10]
+#guard inClass fixture_literal_expressions true == true && inClass fixture_literal_expressions false == true
+example : (inClass fixture_literal_expressions true == true && inClass fixture_literal_expressions false == true) = true := by decide +kernel
+
+/-- census: `member_expressions.ftl` — with_junk=true: false, with_junk=false: true -/
+def fixture_member_expressions : Src :=
+    #[35, 35, 32, 77, 101, 109, 98, 101, 114, 32, 101, 120, 112, 114, 101, 115, 115, 105, 111, 110, 115, 32, 105,
+    110, 32, 112, 108, 97, 99, 101, 97, 98, 108, 101, 115, 46, 10, 10, 35, 32, 79, 75, 32, 77, 101, 115, 115, 97,
+    103, 101, 32, 97, 116, 116, 114, 105, 98, 117, 116, 101, 115, 32, 109, 97, 121, 32, 98, 101, 32, 105, 110,
+    116, 101, 114, 112, 111, 108, 97, 116, 101, 100, 32, 105, 110, 32, 118, 97, 108, 117, 101, 115, 46, 10, 109,
+    101, 115, 115, 97, 103, 101, 45, 97, 116, 116, 114, 105, 98, 117, 116, 101, 45, 101, 120, 112, 114, 101, 115,
+    115, 105, 111, 110, 45, 112, 108, 97, 99, 101, 97, 98, 108, 101, 32, 61, 32, 123, 109, 115, 103, 46, 97, 116,
+    116, 114, 125, 10, 10, 35, 32, 69, 82, 82, 79, 82, 32, 84, 101, 114, 109, 32, 97, 116, 116, 114, 105, 98, 117,
+    116, 101, 115, 32, 109, 97, 121, 32, 110, 111, 116, 32, 98, 101, 32, 117, 115, 101, 100, 32, 102, 111, 114,
+    32, 105, 110, 116, 101, 114, 112, 111, 108, 97, 116, 105, 111, 110, 46, 10, 116, 101, 114, 109, 45, 97, 116,
+    116, 114, 105, 98, 117, 116, 101, 45, 101, 120, 112, 114, 101, 115, 115, 105, 111, 110, 45, 112, 108, 97, 99,
+    101, 97, 98, 108, 101, 32, 61, 32, 123, 45, 116, 101, 114, 109, 46, 97, 116, 116, 114, 125, 10, 10, 10, 35,
+    35, 32, 77, 101, 109, 98, 101, 114, 32, 101, 120, 112, 114, 101, 115, 115, 105, 111, 110, 115, 32, 105, 110,
+    32, 115, 101, 108, 101, 99, 116, 111, 114, 115, 46, 10, 10, 35, 32, 79, 75, 32, 84, 101, 114, 109, 32, 97,
+    116, 116, 114, 105, 98, 117, 116, 101, 115, 32, 109, 97, 121, 32, 98, 101, 32, 117, 115, 101, 100, 32, 97,
+    115, 32, 115, 101, 108, 101, 99, 116, 111, 114, 115, 46, 10, 116, 101, 114, 109, 45, 97, 116, 116, 114, 105,
+    98, 117, 116, 101, 45, 101, 120, 112, 114, 101, 115, 115, 105, 111, 110, 45, 115, 101, 108, 101, 99, 116, 111,
+    114, 32, 61, 32, 123, 45, 116, 101, 114, 109, 46, 97, 116, 116, 114, 32, 45, 62, 10, 32, 32, 32, 42, 91, 107,
+    101, 121, 93, 32, 86, 97, 108, 117, 101, 10, 125, 10, 35, 32, 69, 82, 82, 79, 82, 32, 77, 101, 115, 115, 97,
+    103, 101, 32, 97, 116, 116, 114, 105, 98, 117, 116, 101, 115, 32, 109, 97, 121, 32, 110, 111, 116, 32, 98,
+    101, 32, 117, 115, 101, 100, 32, 97, 115, 32, 115, 101, 108, 101, 99, 116, 111, 114, 115, 46, 10, 109, 101,
+    115, 115, 97, 103, 101, 45, 97, 116, 116, 114, 105, 98, 117, 116, 101, 45, 101, 120, 112, 114, 101, 115, 115,
+    105, 111, 110, 45, 115, 101, 108, 101, 99, 116, 111, 114, 32, 61, 32, 123, 109, 115, 103, 46, 97, 116, 116,
+    114, 32, 45, 62, 10, 32, 32, 32, 42, 91, 107, 101, 121, 93, 32, 86, 97, 108, 117, 101, 10, 125, 10]
+#guard inClass fixture_member_expressions true == false && inClass fixture_member_expressions false == true
+
+/-- census: `messages.ftl` — with_junk=true: false, with_junk=false: true -/
+def fixture_messages : Src :=
+    #[107, 101, 121, 48, 49, 32, 61, 32, 86, 97, 108, 117, 101, 10, 10, 107, 101, 121, 48, 50, 32, 61, 32, 86, 97,
+    108, 117, 101, 10, 32, 32, 32, 32, 46, 97, 116, 116, 114, 32, 61, 32, 65, 116, 116, 114, 105, 98, 117, 116,
+    101, 10, 10, 107, 101, 121, 48, 50, 32, 61, 32, 86, 97, 108, 117, 101, 10, 32, 32, 32, 32, 46, 97, 116, 116,
+    114, 49, 32, 61, 32, 65, 116, 116, 114, 105, 98, 117, 116, 101, 32, 49, 10, 32, 32, 32, 32, 46, 97, 116, 116,
+    114, 50, 32, 61, 32, 65, 116, 116, 114, 105, 98, 117, 116, 101, 32, 50, 10, 10, 107, 101, 121, 48, 51, 32, 61,
+    10, 32, 32, 32, 32, 46, 97, 116, 116, 114, 32, 61, 32, 65, 116, 116, 114, 105, 98, 117, 116, 101, 10, 10, 107,
+    101, 121, 48, 52, 32, 61, 10, 32, 32, 32, 32, 46, 97, 116, 116, 114, 49, 32, 61, 32, 65, 116, 116, 114, 105,
+    98, 117, 116, 101, 32, 49, 10, 32, 32, 32, 32, 46, 97, 116, 116, 114, 50, 32, 61, 32, 65, 116, 116, 114, 105,
+    98, 117, 116, 101, 32, 50, 10, 10, 35, 32, 32, 32, 32, 32, 32, 60, 32, 32, 119, 104, 105, 116, 101, 115, 112,
+    97, 99, 101, 32, 32, 62, 10, 107, 101, 121, 48, 53, 32, 61, 32, 32, 32, 32, 32, 32, 32, 32, 32, 32, 32, 32,
+    32, 32, 32, 32, 10, 32, 32, 32, 32, 46, 97, 116, 116, 114, 49, 32, 61, 32, 65, 116, 116, 114, 105, 98, 117,
+    116, 101, 32, 49, 10, 10, 110, 111, 45, 119, 104, 105, 116, 101, 115, 112, 97, 99, 101, 61, 86, 97, 108, 117,
+    101, 10, 32, 32, 32, 32, 46, 97, 116, 116, 114, 49, 61, 65, 116, 116, 114, 105, 98, 117, 116, 101, 32, 49, 10,
+    10, 101, 120, 116, 114, 97, 45, 119, 104, 105, 116, 101, 115, 112, 97, 99, 101, 32, 32, 32, 32, 61, 32, 32,
+    86, 97, 108, 117, 101, 10, 32, 32, 32, 32, 46, 97, 116, 116, 114, 49, 32, 32, 32, 61, 32, 32, 32, 32, 32, 32,
+    65, 116, 116, 114, 105, 98, 117, 116, 101, 32, 49, 10, 10, 107, 101, 121, 48, 54, 32, 61, 32, 123, 34, 34,
+    125, 10, 10, 35, 32, 74, 85, 78, 75, 32, 77, 105, 115, 115, 105, 110, 103, 32, 118, 97, 108, 117, 101, 10,
+    107, 101, 121, 48, 55, 32, 61, 10, 10, 35, 32, 74, 85, 78, 75, 32, 77, 105, 115, 115, 105, 110, 103, 32, 61,
+    10, 107, 101, 121, 48, 56, 10, 10, 75, 69, 89, 48, 57, 32, 61, 32, 86, 97, 108, 117, 101, 32, 48, 57, 10, 10,
+    107, 101, 121, 45, 49, 48, 32, 61, 32, 86, 97, 108, 117, 101, 32, 49, 48, 10, 107, 101, 121, 95, 49, 49, 32,
+    61, 32, 86, 97, 108, 117, 101, 32, 49, 49, 10, 107, 101, 121, 45, 49, 50, 45, 32, 61, 32, 86, 97, 108, 117,
+    101, 32, 49, 50, 10, 107, 101, 121, 95, 49, 51, 95, 32, 61, 32, 86, 97, 108, 117, 101, 32, 49, 51, 10, 10, 35,
+    32, 74, 85, 78, 75, 32, 73, 110, 118, 97, 108, 105, 100, 32, 105, 100, 10, 48, 101, 114, 114, 45, 49, 52, 32,
+    61, 32, 86, 97, 108, 117, 101, 32, 49, 52, 10, 10, 35, 32, 74, 85, 78, 75, 32, 73, 110, 118, 97, 108, 105,
+    100, 32, 105, 100, 10, 101, 114, 114, 45, 49, 53, 63, 32, 61, 32, 86, 97, 108, 117, 101, 32, 49, 53, 10, 10,
+    35, 32, 74, 85, 78, 75, 32, 73, 110, 118, 97, 108, 105, 100, 32, 105, 100, 10, 101, 114, 114, 45, 196, 133,
+    196, 153, 45, 49, 54, 32, 61, 32, 86, 97, 108, 117, 101, 32, 49, 54, 10]
+#guard inClass fixture_messages true == false && inClass fixture_messages false == true
+
+/-- census: `mixed_entries.ftl` — with_junk=true: false, with_junk=false: true -/
+def fixture_mixed_entries : Src :=
+    #[35, 32, 76, 105, 99, 101, 110, 115, 101, 32, 67, 111, 109, 109, 101, 110, 116, 10, 10, 35, 35, 35, 32, 82,
+    101, 115, 111, 117, 114, 99, 101, 32, 67, 111, 109, 109, 101, 110, 116, 10, 10, 45, 98, 114, 97, 110, 100, 45,
+    110, 97, 109, 101, 32, 61, 32, 65, 117, 114, 111, 114, 97, 10, 10, 35, 35, 32, 71, 114, 111, 117, 112, 32, 67,
+    111, 109, 109, 101, 110, 116, 10, 10, 107, 101, 121, 48, 49, 32, 61, 10, 32, 32, 32, 32, 46, 97, 116, 116,
+    114, 32, 61, 32, 65, 116, 116, 114, 105, 98, 117, 116, 101, 10, 10, 196, 133, 61, 73, 110, 118, 97, 108, 105,
+    100, 32, 105, 100, 101, 110, 116, 105, 102, 105, 101, 114, 10, 196, 135, 61, 65, 110, 111, 116, 104, 101, 114,
+    32, 111, 110, 101, 10, 10, 35, 32, 77, 101, 115, 115, 97, 103, 101, 32, 67, 111, 109, 109, 101, 110, 116, 10,
+    107, 101, 121, 48, 50, 32, 61, 32, 86, 97, 108, 117, 101, 10, 10, 35, 32, 83, 116, 97, 110, 100, 97, 108, 111,
+    110, 101, 32, 67, 111, 109, 109, 101, 110, 116, 10, 32, 32, 32, 32, 46, 97, 116, 116, 114, 32, 61, 32, 68, 97,
+    110, 103, 108, 105, 110, 103, 32, 97, 116, 116, 114, 105, 98, 117, 116, 101, 10, 10, 35, 32, 84, 104, 101,
+    114, 101, 32, 97, 114, 101, 32, 53, 32, 115, 112, 97, 99, 101, 115, 32, 111, 110, 32, 116, 104, 101, 32, 108,
+    105, 110, 101, 32, 98, 101, 116, 119, 101, 101, 110, 32, 107, 101, 121, 48, 51, 32, 97, 110, 100, 32, 107,
+    101, 121, 48, 52, 46, 10, 107, 101, 121, 48, 51, 32, 61, 32, 86, 97, 108, 117, 101, 32, 48, 51, 10, 32, 32,
+    32, 32, 32, 10, 107, 101, 121, 48, 52, 32, 61, 32, 86, 97, 108, 117, 101, 32, 48, 52, 10]
+#guard inClass fixture_mixed_entries true == false && inClass fixture_mixed_entries false == true
+
+/-- census: `multiline_values.ftl` — with_junk=true: true, with_junk=false: true -/
+def fixture_multiline_values : Src :=
+    #[107, 101, 121, 48, 49, 32, 61, 32, 65, 32, 109, 117, 108, 116, 105, 108, 105, 110, 101, 32, 118, 97, 108,
+    117, 101, 10, 32, 32, 32, 32, 99, 111, 110, 116, 105, 110, 117, 101, 100, 32, 111, 110, 32, 116, 104, 101, 32,
+    110, 101, 120, 116, 32, 108, 105, 110, 101, 10, 10, 32, 32, 32, 32, 97, 110, 100, 32, 97, 108, 115, 111, 32,
+    100, 111, 119, 110, 32, 104, 101, 114, 101, 46, 10, 10, 107, 101, 121, 48, 50, 32, 61, 10, 32, 32, 32, 32, 65,
+    32, 109, 117, 108, 116, 105, 108, 105, 110, 101, 32, 118, 97, 108, 117, 101, 32, 115, 116, 97, 114, 116, 105,
+    110, 103, 10, 32, 32, 32, 32, 111, 110, 32, 97, 32, 110, 101, 119, 32, 108, 105, 110, 101, 46, 10, 10, 107,
+    101, 121, 48, 51, 32, 61, 10, 32, 32, 32, 32, 46, 97, 116, 116, 114, 32, 61, 32, 65, 32, 109, 117, 108, 116,
+    105, 108, 105, 110, 101, 32, 97, 116, 116, 114, 105, 98, 117, 116, 101, 32, 118, 97, 108, 117, 101, 10, 32,
+    32, 32, 32, 32, 32, 32, 32, 99, 111, 110, 116, 105, 110, 117, 101, 100, 32, 111, 110, 32, 116, 104, 101, 32,
+    110, 101, 120, 116, 32, 108, 105, 110, 101, 10, 10, 32, 32, 32, 32, 32, 32, 32, 32, 97, 110, 100, 32, 97, 108,
+    115, 111, 32, 100, 111, 119, 110, 32, 104, 101, 114, 101, 46, 10, 10, 107, 101, 121, 48, 52, 32, 61, 10, 32,
+    32, 32, 32, 46, 97, 116, 116, 114, 32, 61, 10, 32, 32, 32, 32, 32, 32, 32, 32, 65, 32, 109, 117, 108, 116,
+    105, 108, 105, 110, 101, 32, 97, 116, 116, 114, 105, 98, 117, 116, 101, 32, 118, 97, 108, 117, 101, 10, 32,
+    32, 32, 32, 32, 32, 32, 32, 115, 116, 97, 114, 105, 110, 103, 32, 111, 110, 32, 97, 32, 110, 101, 119, 32,
+    108, 105, 110, 101, 10, 10, 107, 101, 121, 48, 53, 32, 61, 10, 10, 32, 65, 32, 109, 117, 108, 116, 105, 108,
+    105, 110, 101, 32, 118, 97, 108, 117, 101, 32, 119, 105, 116, 104, 32, 110, 111, 110, 45, 115, 116, 97, 110,
+    100, 97, 114, 100, 10, 10, 32, 32, 32, 32, 32, 105, 110, 100, 101, 110, 116, 97, 116, 105, 111, 110, 46, 10,
+    10, 107, 101, 121, 48, 54, 32, 61, 10, 32, 32, 32, 32, 65, 32, 109, 117, 108, 116, 105, 108, 105, 110, 101,
+    32, 118, 97, 108, 117, 101, 32, 119, 105, 116, 104, 32, 123, 34, 112, 108, 97, 99, 101, 97, 98, 108, 101, 115,
+    34, 125, 10, 32, 32, 32, 32, 123, 34, 97, 116, 34, 125, 32, 116, 104, 101, 32, 98, 101, 103, 105, 110, 110,
+    105, 110, 103, 32, 97, 110, 100, 32, 116, 104, 101, 32, 101, 110, 100, 10, 32, 32, 32, 32, 123, 34, 111, 102,
+    32, 108, 105, 110, 101, 115, 34, 125, 123, 34, 46, 34, 125, 10, 10, 107, 101, 121, 48, 55, 32, 61, 10, 32, 32,
+    32, 32, 123, 34, 65, 32, 109, 117, 108, 116, 105, 108, 105, 110, 101, 32, 118, 97, 108, 117, 101, 34, 125, 32,
+    115, 116, 97, 114, 116, 105, 110, 103, 32, 97, 110, 100, 32, 101, 110, 100, 105, 110, 103, 32, 123, 34, 119,
+    105, 116, 104, 32, 97, 32, 112, 108, 97, 99, 101, 97, 98, 108, 101, 34, 125, 10, 10, 107, 101, 121, 48, 56,
+    32, 61, 32, 32, 32, 32, 32, 76, 101, 97, 100, 105, 110, 103, 32, 97, 110, 100, 32, 116, 114, 97, 105, 108,
+    105, 110, 103, 32, 119, 104, 105, 116, 101, 115, 112, 97, 99, 101, 46, 32, 32, 32, 32, 32, 10, 10, 107, 101,
+    121, 48, 57, 32, 61, 32, 122, 101, 114, 111, 10, 32, 32, 32, 32, 32, 116, 104, 114, 101, 101, 10, 32, 32, 32,
+    32, 116, 119, 111, 10, 32, 32, 32, 111, 110, 101, 10, 32, 32, 122, 101, 114, 111, 10, 10, 107, 101, 121, 49,
+    48, 32, 61, 10, 32, 32, 32, 32, 32, 32, 116, 119, 111, 10, 32, 32, 32, 32, 122, 101, 114, 111, 10, 32, 32, 32,
+    32, 32, 32, 32, 32, 102, 111, 117, 114, 10, 10, 107, 101, 121, 49, 49, 32, 61, 10, 10, 10, 32, 32, 32, 32, 32,
+    32, 116, 119, 111, 10, 32, 32, 32, 32, 122, 101, 114, 111, 10, 10, 107, 101, 121, 49, 50, 32, 61, 10, 123, 34,
+    46, 34, 125, 10, 32, 32, 32, 32, 102, 111, 117, 114, 10, 10, 107, 101, 121, 49, 51, 32, 61, 10, 32, 32, 32,
+    32, 102, 111, 117, 114, 10, 123, 34, 46, 34, 125, 10]
+#guard inClass fixture_multiline_values true == true && inClass fixture_multiline_values false == true
+
+/-- census: `numbers.ftl` — with_junk=true: false, with_junk=false: true -/
+def fixture_numbers : Src :=
+    #[105, 110, 116, 45, 122, 101, 114, 111, 32, 61, 32, 123, 48, 125, 10, 105, 110, 116, 45, 112, 111, 115, 105,
+    116, 105, 118, 101, 32, 61, 32, 123, 49, 125, 10, 105, 110, 116, 45, 110, 101, 103, 97, 116, 105, 118, 101,
+    32, 61, 32, 123, 45, 49, 125, 10, 105, 110, 116, 45, 110, 101, 103, 97, 116, 105, 118, 101, 45, 122, 101, 114,
+    111, 32, 61, 32, 123, 45, 48, 125, 10, 10, 105, 110, 116, 45, 112, 111, 115, 105, 116, 105, 118, 101, 45, 112,
+    97, 100, 100, 101, 100, 32, 61, 32, 123, 48, 49, 125, 10, 105, 110, 116, 45, 110, 101, 103, 97, 116, 105, 118,
+    101, 45, 112, 97, 100, 100, 101, 100, 32, 61, 32, 123, 45, 48, 49, 125, 10, 105, 110, 116, 45, 122, 101, 114,
+    111, 45, 112, 97, 100, 100, 101, 100, 32, 61, 32, 123, 48, 48, 125, 10, 105, 110, 116, 45, 110, 101, 103, 97,
+    116, 105, 118, 101, 45, 122, 101, 114, 111, 45, 112, 97, 100, 100, 101, 100, 32, 61, 32, 123, 45, 48, 48, 125,
+    10, 10, 102, 108, 111, 97, 116, 45, 122, 101, 114, 111, 32, 61, 32, 123, 48, 46, 48, 125, 10, 102, 108, 111,
+    97, 116, 45, 112, 111, 115, 105, 116, 105, 118, 101, 32, 61, 32, 123, 48, 46, 48, 49, 125, 10, 102, 108, 111,
+    97, 116, 45, 112, 111, 115, 105, 116, 105, 118, 101, 45, 111, 110, 101, 32, 61, 32, 123, 49, 46, 48, 51, 125,
+    10, 102, 108, 111, 97, 116, 45, 112, 111, 115, 105, 116, 105, 118, 101, 45, 119, 105, 116, 104, 111, 117, 116,
+    45, 102, 114, 97, 99, 116, 105, 111, 110, 32, 61, 32, 123, 49, 46, 48, 48, 48, 125, 10, 10, 102, 108, 111, 97,
+    116, 45, 110, 101, 103, 97, 116, 105, 118, 101, 32, 61, 32, 123, 45, 48, 46, 48, 49, 125, 10, 102, 108, 111,
+    97, 116, 45, 110, 101, 103, 97, 116, 105, 118, 101, 45, 111, 110, 101, 32, 61, 32, 123, 45, 49, 46, 48, 51,
+    125, 10, 102, 108, 111, 97, 116, 45, 110, 101, 103, 97, 116, 105, 118, 101, 45, 122, 101, 114, 111, 32, 61,
+    32, 123, 45, 48, 46, 48, 125, 10, 102, 108, 111, 97, 116, 45, 110, 101, 103, 97, 116, 105, 118, 101, 45, 119,
+    105, 116, 104, 111, 117, 116, 45, 102, 114, 97, 99, 116, 105, 111, 110, 32, 61, 32, 123, 45, 49, 46, 48, 48,
+    48, 125, 10, 10, 102, 108, 111, 97, 116, 45, 112, 111, 115, 105, 116, 105, 118, 101, 45, 112, 97, 100, 100,
+    101, 100, 45, 108, 101, 102, 116, 32, 61, 32, 123, 48, 49, 46, 48, 51, 125, 10, 102, 108, 111, 97, 116, 45,
+    112, 111, 115, 105, 116, 105, 118, 101, 45, 112, 97, 100, 100, 101, 100, 45, 114, 105, 103, 104, 116, 32, 61,
+    32, 123, 49, 46, 48, 51, 48, 48, 125, 10, 102, 108, 111, 97, 116, 45, 112, 111, 115, 105, 116, 105, 118, 101,
+    45, 112, 97, 100, 100, 101, 100, 45, 98, 111, 116, 104, 32, 61, 32, 123, 48, 49, 46, 48, 51, 48, 48, 125, 10,
+    10, 102, 108, 111, 97, 116, 45, 110, 101, 103, 97, 116, 105, 118, 101, 45, 112, 97, 100, 100, 101, 100, 45,
+    108, 101, 102, 116, 32, 61, 32, 123, 45, 48, 49, 46, 48, 51, 125, 10, 102, 108, 111, 97, 116, 45, 110, 101,
+    103, 97, 116, 105, 118, 101, 45, 112, 97, 100, 100, 101, 100, 45, 114, 105, 103, 104, 116, 32, 61, 32, 123,
+    45, 49, 46, 48, 51, 48, 48, 125, 10, 102, 108, 111, 97, 116, 45, 110, 101, 103, 97, 116, 105, 118, 101, 45,
+    112, 97, 100, 100, 101, 100, 45, 98, 111, 116, 104, 32, 61, 32, 123, 45, 48, 49, 46, 48, 51, 48, 48, 125, 10,
+    10, 10, 35, 35, 32, 69, 82, 82, 79, 82, 83, 10, 10, 101, 114, 114, 48, 49, 32, 61, 32, 123, 49, 46, 125, 10,
+    101, 114, 114, 48, 50, 32, 61, 32, 123, 46, 48, 50, 125, 10, 101, 114, 114, 48, 51, 32, 61, 32, 123, 49, 46,
+    48, 50, 46, 48, 51, 125, 10, 101, 114, 114, 48, 52, 32, 61, 32, 123, 49, 46, 32, 48, 50, 125, 10, 101, 114,
+    114, 48, 53, 32, 61, 32, 123, 49, 32, 46, 48, 50, 125, 10, 101, 114, 114, 48, 54, 32, 61, 32, 123, 45, 32, 49,
+    125, 10, 101, 114, 114, 48, 55, 32, 61, 32, 123, 49, 44, 48, 50, 125, 10]
+#guard inClass fixture_numbers true == false && inClass fixture_numbers false == true
+
+/-- census: `obsolete.ftl` — with_junk=true: false, with_junk=false: true -/
+def fixture_obsolete : Src :=
+    #[35, 35, 35, 32, 84, 104, 101, 32, 115, 121, 110, 116, 97, 120, 32, 105, 110, 32, 116, 104, 105, 115, 32,
+    102, 105, 108, 101, 32, 104, 97, 115, 32, 98, 101, 101, 110, 32, 100, 105, 115, 99, 111, 110, 116, 105, 110,
+    117, 101, 100, 46, 32, 73, 116, 32, 105, 115, 32, 110, 111, 32, 108, 111, 110, 103, 101, 114, 32, 112, 97,
+    114, 116, 32, 111, 102, 32, 116, 104, 101, 10, 35, 35, 35, 32, 70, 108, 117, 101, 110, 116, 32, 115, 112, 101,
+    99, 105, 102, 105, 99, 97, 116, 105, 111, 110, 32, 97, 110, 100, 32, 115, 104, 111, 117, 108, 100, 32, 110,
+    111, 116, 32, 98, 101, 32, 105, 109, 112, 108, 101, 109, 101, 110, 116, 101, 100, 32, 110, 111, 114, 32, 117,
+    115, 101, 100, 46, 32, 87, 101, 39, 114, 101, 32, 107, 101, 101, 112, 105, 110, 103, 10, 35, 35, 35, 32, 116,
+    104, 101, 115, 101, 32, 102, 105, 120, 116, 117, 114, 101, 115, 32, 97, 114, 111, 117, 110, 100, 32, 116, 111,
+    32, 112, 114, 111, 116, 101, 99, 116, 32, 97, 103, 97, 105, 110, 115, 116, 32, 97, 99, 99, 105, 100, 101, 110,
+    116, 97, 108, 32, 115, 121, 110, 116, 97, 120, 32, 114, 101, 117, 115, 101, 46, 10, 10, 10, 35, 35, 32, 86,
+    97, 114, 105, 97, 110, 116, 32, 108, 105, 115, 116, 115, 46, 10, 10, 109, 101, 115, 115, 97, 103, 101, 45,
+    118, 97, 114, 105, 97, 110, 116, 45, 108, 105, 115, 116, 32, 61, 10, 32, 32, 32, 32, 123, 10, 32, 32, 32, 32,
+    32, 32, 32, 42, 91, 107, 101, 121, 93, 32, 86, 97, 108, 117, 101, 10, 32, 32, 32, 32, 125, 10, 10, 45, 116,
+    101, 114, 109, 45, 118, 97, 114, 105, 97, 110, 116, 45, 108, 105, 115, 116, 32, 61, 10, 32, 32, 32, 32, 123,
+    10, 32, 32, 32, 32, 32, 32, 32, 42, 91, 107, 101, 121, 93, 32, 86, 97, 108, 117, 101, 10, 32, 32, 32, 32, 125,
+    10, 10, 10, 35, 35, 32, 86, 97, 114, 105, 97, 110, 116, 32, 101, 120, 112, 114, 101, 115, 115, 105, 111, 110,
+    115, 46, 10, 10, 109, 101, 115, 115, 97, 103, 101, 45, 118, 97, 114, 105, 97, 110, 116, 45, 101, 120, 112,
+    114, 101, 115, 115, 105, 111, 110, 45, 112, 108, 97, 99, 101, 97, 98, 108, 101, 32, 61, 32, 123, 109, 115,
+    103, 91, 99, 97, 115, 101, 93, 125, 10, 109, 101, 115, 115, 97, 103, 101, 45, 118, 97, 114, 105, 97, 110, 116,
+    45, 101, 120, 112, 114, 101, 115, 115, 105, 111, 110, 45, 115, 101, 108, 101, 99, 116, 111, 114, 32, 61, 32,
+    123, 109, 115, 103, 91, 99, 97, 115, 101, 93, 32, 45, 62, 10, 32, 32, 32, 42, 91, 107, 101, 121, 93, 32, 86,
+    97, 108, 117, 101, 10, 125, 10, 10, 116, 101, 114, 109, 45, 118, 97, 114, 105, 97, 110, 116, 45, 101, 120,
+    112, 114, 101, 115, 115, 105, 111, 110, 45, 112, 108, 97, 99, 101, 97, 98, 108, 101, 32, 61, 32, 123, 45, 116,
+    101, 114, 109, 91, 99, 97, 115, 101, 93, 125, 10, 116, 101, 114, 109, 45, 118, 97, 114, 105, 97, 110, 116, 45,
+    101, 120, 112, 114, 101, 115, 115, 105, 111, 110, 45, 115, 101, 108, 101, 99, 116, 111, 114, 32, 61, 32, 123,
+    45, 116, 101, 114, 109, 91, 99, 97, 115, 101, 93, 32, 45, 62, 10, 32, 32, 32, 42, 91, 107, 101, 121, 93, 32,
+    86, 97, 108, 117, 101, 10, 125, 10]
+#guard inClass fixture_obsolete true == false && inClass fixture_obsolete false == true
+
+/-- census: `placeables.ftl` — with_junk=true: false, with_junk=false: true -/
+def fixture_placeables : Src :=
+    #[110, 101, 115, 116, 101, 100, 45, 112, 108, 97, 99, 101, 97, 98, 108, 101, 32, 61, 32, 123, 123, 123, 49,
+    125, 125, 125, 10, 112, 97, 100, 100, 101, 100, 45, 112, 108, 97, 99, 101, 97, 98, 108, 101, 32, 61, 32, 123,
+    32, 32, 49, 32, 32, 125, 10, 115, 112, 97, 114, 115, 101, 45, 112, 108, 97, 99, 101, 97, 98, 108, 101, 32, 61,
+    32, 123, 32, 123, 32, 49, 32, 125, 32, 125, 10, 10, 35, 32, 69, 82, 82, 79, 82, 32, 85, 110, 109, 97, 116, 99,
+    104, 101, 100, 32, 111, 112, 101, 110, 105, 110, 103, 32, 98, 114, 97, 99, 101, 10, 117, 110, 109, 97, 116,
+    99, 104, 101, 100, 45, 111, 112, 101, 110, 49, 32, 61, 32, 123, 32, 49, 10, 10, 35, 32, 69, 82, 82, 79, 82,
+    32, 85, 110, 109, 97, 116, 99, 104, 101, 100, 32, 111, 112, 101, 110, 105, 110, 103, 32, 98, 114, 97, 99, 101,
+    10, 117, 110, 109, 97, 116, 99, 104, 101, 100, 45, 111, 112, 101, 110, 50, 32, 61, 32, 123, 123, 32, 49, 32,
+    125, 10, 10, 35, 32, 69, 82, 82, 79, 82, 32, 85, 110, 109, 97, 116, 99, 104, 101, 100, 32, 99, 108, 111, 115,
+    105, 110, 103, 32, 98, 114, 97, 99, 101, 10, 117, 110, 109, 97, 116, 99, 104, 101, 100, 45, 99, 108, 111, 115,
+    101, 49, 32, 61, 32, 49, 32, 125, 10, 10, 35, 32, 69, 82, 82, 79, 82, 32, 85, 110, 109, 97, 116, 99, 104, 101,
+    100, 32, 99, 108, 111, 115, 105, 110, 103, 32, 98, 114, 97, 99, 101, 10, 117, 110, 109, 97, 116, 99, 104, 101,
+    100, 45, 99, 108, 111, 115, 101, 50, 32, 61, 32, 123, 32, 49, 32, 125, 125, 10]
+#guard inClass fixture_placeables true == false && inClass fixture_placeables false == true
+
+/-- census: `reference_expressions.ftl` — with_junk=true: false, with_junk=false: true -/
+def fixture_reference_expressions : Src :=
+    #[35, 35, 32, 82, 101, 102, 101, 114, 101, 110, 99, 101, 32, 101, 120, 112, 114, 101, 115, 115, 105, 111, 110,
+    115, 32, 105, 110, 32, 112, 108, 97, 99, 101, 97, 98, 108, 101, 115, 46, 10, 10, 109, 101, 115, 115, 97, 103,
+    101, 45, 114, 101, 102, 101, 114, 101, 110, 99, 101, 45, 112, 108, 97, 99, 101, 97, 98, 108, 101, 32, 61, 32,
+    123, 109, 115, 103, 125, 10, 116, 101, 114, 109, 45, 114, 101, 102, 101, 114, 101, 110, 99, 101, 45, 112, 108,
+    97, 99, 101, 97, 98, 108, 101, 32, 61, 32, 123, 45, 116, 101, 114, 109, 125, 10, 118, 97, 114, 105, 97, 98,
+    108, 101, 45, 114, 101, 102, 101, 114, 101, 110, 99, 101, 45, 112, 108, 97, 99, 101, 97, 98, 108, 101, 32, 61,
+    32, 123, 36, 118, 97, 114, 125, 10, 10, 35, 32, 70, 117, 110, 99, 116, 105, 111, 110, 32, 114, 101, 102, 101,
+    114, 101, 110, 99, 101, 115, 32, 97, 114, 101, 32, 105, 110, 118, 97, 108, 105, 100, 32, 111, 117, 116, 115,
+    105, 100, 101, 32, 111, 102, 32, 99, 97, 108, 108, 32, 101, 120, 112, 114, 101, 115, 115, 105, 111, 110, 115,
+    46, 10, 35, 32, 84, 104, 105, 115, 32, 112, 97, 114, 115, 101, 115, 32, 97, 115, 32, 97, 32, 118, 97, 108,
+    105, 100, 32, 77, 101, 115, 115, 97, 103, 101, 82, 101, 102, 101, 114, 101, 110, 99, 101, 46, 10, 102, 117,
+    110, 99, 116, 105, 111, 110, 45, 114, 101, 102, 101, 114, 101, 110, 99, 101, 45, 112, 108, 97, 99, 101, 97,
+    98, 108, 101, 32, 61, 32, 123, 70, 85, 78, 125, 10, 10, 10, 35, 35, 32, 82, 101, 102, 101, 114, 101, 110, 99,
+    101, 32, 101, 120, 112, 114, 101, 115, 115, 105, 111, 110, 115, 32, 105, 110, 32, 115, 101, 108, 101, 99, 116,
+    111, 114, 115, 46, 10, 10, 118, 97, 114, 105, 97, 98, 108, 101, 45, 114, 101, 102, 101, 114, 101, 110, 99,
+    101, 45, 115, 101, 108, 101, 99, 116, 111, 114, 32, 61, 32, 123, 36, 118, 97, 114, 32, 45, 62, 10, 32, 32, 32,
+    42, 91, 107, 101, 121, 93, 32, 86, 97, 108, 117, 101, 10, 125, 10, 10, 35, 32, 69, 82, 82, 79, 82, 32, 77,
+    101, 115, 115, 97, 103, 101, 32, 118, 97, 108, 117, 101, 115, 32, 109, 97, 121, 32, 110, 111, 116, 32, 98,
+    101, 32, 117, 115, 101, 100, 32, 97, 115, 32, 115, 101, 108, 101, 99, 116, 111, 114, 115, 46, 10, 109, 101,
+    115, 115, 97, 103, 101, 45, 114, 101, 102, 101, 114, 101, 110, 99, 101, 45, 115, 101, 108, 101, 99, 116, 111,
+    114, 32, 61, 32, 123, 109, 115, 103, 32, 45, 62, 10, 32, 32, 32, 42, 91, 107, 101, 121, 93, 32, 86, 97, 108,
+    117, 101, 10, 125, 10, 35, 32, 69, 82, 82, 79, 82, 32, 84, 101, 114, 109, 32, 118, 97, 108, 117, 101, 115, 32,
+    109, 97, 121, 32, 110, 111, 116, 32, 98, 101, 32, 117, 115, 101, 100, 32, 97, 115, 32, 115, 101, 108, 101, 99,
+    116, 111, 114, 115, 46, 10, 116, 101, 114, 109, 45, 114, 101, 102, 101, 114, 101, 110, 99, 101, 45, 115, 101,
+    108, 101, 99, 116, 111, 114, 32, 61, 32, 123, 45, 116, 101, 114, 109, 32, 45, 62, 10, 32, 32, 32, 42, 91, 107,
+    101, 121, 93, 32, 86, 97, 108, 117, 101, 10, 125, 10, 35, 32, 69, 82, 82, 79, 82, 32, 70, 117, 110, 99, 116,
+    105, 111, 110, 32, 114, 101, 102, 101, 114, 101, 110, 99, 101, 115, 32, 97, 114, 101, 32, 105, 110, 118, 97,
+    108, 105, 100, 32, 111, 117, 116, 115, 105, 100, 101, 32, 111, 102, 32, 99, 97, 108, 108, 32, 101, 120, 112,
+    114, 101, 115, 115, 105, 111, 110, 115, 44, 32, 97, 110, 100, 32, 116, 104, 105, 115, 10, 35, 32, 112, 97,
+    114, 115, 101, 115, 32, 97, 115, 32, 97, 32, 77, 101, 115, 115, 97, 103, 101, 82, 101, 102, 101, 114, 101,
+    110, 99, 101, 32, 119, 104, 105, 99, 104, 32, 105, 115, 110, 39, 116, 32, 97, 32, 118, 97, 108, 105, 100, 32,
+    115, 101, 108, 101, 99, 116, 111, 114, 46, 10, 102, 117, 110, 99, 116, 105, 111, 110, 45, 101, 120, 112, 114,
+    101, 115, 115, 105, 111, 110, 45, 115, 101, 108, 101, 99, 116, 111, 114, 32, 61, 32, 123, 70, 85, 78, 32, 45,
+    62, 10, 32, 32, 32, 42, 91, 107, 101, 121, 93, 32, 86, 97, 108, 117, 101, 10, 125, 10]
+#guard inClass fixture_reference_expressions true == false && inClass fixture_reference_expressions false == true
+
+/-- census: `select_expressions.ftl` — with_junk=true: false, with_junk=false: true -/
+def fixture_select_expressions : Src :=
+    #[110, 101, 119, 45, 109, 101, 115, 115, 97, 103, 101, 115, 32, 61, 10, 32, 32, 32, 32, 123, 32, 66, 85, 73,
+    76, 84, 73, 78, 40, 41, 32, 45, 62, 10, 32, 32, 32, 32, 32, 32, 32, 32, 91, 48, 93, 32, 90, 101, 114, 111, 10,
+    32, 32, 32, 32, 32, 32, 32, 42, 91, 111, 116, 104, 101, 114, 93, 32, 123, 34, 34, 125, 79, 116, 104, 101, 114,
+    10, 32, 32, 32, 32, 125, 10, 10, 118, 97, 108, 105, 100, 45, 115, 101, 108, 101, 99, 116, 111, 114, 45, 116,
+    101, 114, 109, 45, 97, 116, 116, 114, 105, 98, 117, 116, 101, 32, 61, 10, 32, 32, 32, 32, 123, 32, 45, 116,
+    101, 114, 109, 46, 99, 97, 115, 101, 32, 45, 62, 10, 32, 32, 32, 32, 32, 32, 32, 42, 91, 107, 101, 121, 93,
+    32, 118, 97, 108, 117, 101, 10, 32, 32, 32, 32, 125, 10, 10, 35, 32, 69, 82, 82, 79, 82, 32, 84, 101, 114,
+    109, 32, 118, 97, 108, 117, 101, 115, 32, 97, 114, 101, 32, 110, 111, 116, 32, 118, 97, 108, 105, 100, 32,
+    115, 101, 108, 101, 99, 116, 111, 114, 115, 10, 105, 110, 118, 97, 108, 105, 100, 45, 115, 101, 108, 101, 99,
+    116, 111, 114, 45, 116, 101, 114, 109, 45, 118, 97, 108, 117, 101, 32, 61, 10, 32, 32, 32, 32, 123, 32, 45,
+    116, 101, 114, 109, 32, 45, 62, 10, 32, 32, 32, 32, 32, 32, 32, 42, 91, 107, 101, 121, 93, 32, 118, 97, 108,
+    117, 101, 10, 32, 32, 32, 32, 125, 10, 10, 35, 32, 69, 82, 82, 79, 82, 32, 67, 97, 108, 108, 69, 120, 112,
+    114, 101, 115, 115, 105, 111, 110, 115, 32, 111, 110, 32, 84, 101, 114, 109, 115, 32, 97, 114, 101, 32, 115,
+    105, 109, 105, 108, 97, 114, 32, 116, 111, 32, 84, 101, 114, 109, 82, 101, 102, 101, 114, 101, 110, 99, 101,
+    115, 10, 105, 110, 118, 97, 108, 105, 100, 45, 115, 101, 108, 101, 99, 116, 111, 114, 45, 116, 101, 114, 109,
+    45, 118, 97, 114, 105, 97, 110, 116, 32, 61, 10, 32, 32, 32, 32, 123, 32, 45, 116, 101, 114, 109, 40, 99, 97,
+    115, 101, 58, 32, 34, 110, 111, 109, 105, 110, 97, 116, 105, 118, 101, 34, 41, 32, 45, 62, 10, 32, 32, 32, 32,
+    32, 32, 32, 42, 91, 107, 101, 121, 93, 32, 118, 97, 108, 117, 101, 10, 32, 32, 32, 32, 125, 10, 10, 35, 32,
+    69, 82, 82, 79, 82, 32, 78, 101, 115, 116, 101, 100, 32, 101, 120, 112, 114, 101, 115, 115, 105, 111, 110,
+    115, 32, 97, 114, 101, 32, 110, 111, 116, 32, 118, 97, 108, 105, 100, 32, 115, 101, 108, 101, 99, 116, 111,
+    114, 115, 10, 105, 110, 118, 97, 108, 105, 100, 45, 115, 101, 108, 101, 99, 116, 111, 114, 45, 110, 101, 115,
+    116, 101, 100, 45, 101, 120, 112, 114, 101, 115, 115, 105, 111, 110, 32, 61, 10, 32, 32, 32, 32, 123, 32, 123,
+    32, 51, 32, 125, 32, 45, 62, 10, 32, 32, 32, 32, 32, 32, 32, 32, 42, 91, 107, 101, 121, 93, 32, 100, 101, 102,
+    97, 117, 108, 116, 10, 32, 32, 32, 32, 125, 10, 10, 35, 32, 69, 82, 82, 79, 82, 32, 83, 101, 108, 101, 99,
+    116, 32, 101, 120, 112, 114, 101, 115, 115, 105, 111, 110, 115, 32, 97, 114, 101, 32, 110, 111, 116, 32, 118,
+    97, 108, 105, 100, 32, 115, 101, 108, 101, 99, 116, 111, 114, 115, 10, 105, 110, 118, 97, 108, 105, 100, 45,
+    115, 101, 108, 101, 99, 116, 111, 114, 45, 115, 101, 108, 101, 99, 116, 45, 101, 120, 112, 114, 101, 115, 115,
+    105, 111, 110, 32, 61, 10, 32, 32, 32, 32, 123, 32, 123, 32, 36, 115, 101, 108, 32, 45, 62, 10, 32, 32, 32,
+    32, 32, 32, 32, 32, 42, 91, 107, 101, 121, 93, 32, 118, 97, 108, 117, 101, 10, 32, 32, 32, 32, 32, 32, 32, 32,
+    125, 32, 45, 62, 10, 32, 32, 32, 32, 32, 32, 32, 32, 42, 91, 107, 101, 121, 93, 32, 100, 101, 102, 97, 117,
+    108, 116, 10, 32, 32, 32, 32, 125, 10, 10, 101, 109, 112, 116, 121, 45, 118, 97, 114, 105, 97, 110, 116, 32,
+    61, 10, 32, 32, 32, 32, 123, 32, 36, 115, 101, 108, 32, 45, 62, 10, 32, 32, 32, 32, 32, 32, 32, 42, 91, 107,
+    101, 121, 93, 32, 123, 34, 34, 125, 10, 32, 32, 32, 32, 125, 10, 10, 114, 101, 100, 117, 99, 101, 100, 45,
+    119, 104, 105, 116, 101, 115, 112, 97, 99, 101, 32, 61, 10, 32, 32, 32, 32, 123, 70, 79, 79, 40, 41, 45, 62,
+    10, 32, 32, 32, 32, 32, 32, 32, 42, 91, 107, 101, 121, 93, 32, 123, 34, 34, 125, 10, 32, 32, 32, 32, 125, 10,
+    10, 110, 101, 115, 116, 101, 100, 45, 115, 101, 108, 101, 99, 116, 32, 61, 10, 32, 32, 32, 32, 123, 32, 36,
+    115, 101, 108, 32, 45, 62, 10, 32, 32, 32, 32, 32, 32, 32, 42, 91, 111, 110, 101, 93, 32, 123, 32, 36, 115,
+    101, 108, 32, 45, 62, 10, 32, 32, 32, 32, 32, 32, 32, 32, 32, 32, 42, 91, 116, 119, 111, 93, 32, 86, 97, 108,
+    117, 101, 10, 32, 32, 32, 32, 32, 32, 32, 125, 10, 32, 32, 32, 32, 125, 10, 10, 35, 32, 69, 82, 82, 79, 82,
+    32, 77, 105, 115, 115, 105, 110, 103, 32, 115, 101, 108, 101, 99, 116, 111, 114, 10, 109, 105, 115, 115, 105,
+    110, 103, 45, 115, 101, 108, 101, 99, 116, 111, 114, 32, 61, 10, 32, 32, 32, 32, 123, 10, 32, 32, 32, 32, 32,
+    32, 32, 42, 91, 107, 101, 121, 93, 32, 86, 97, 108, 117, 101, 10, 32, 32, 32, 32, 125, 10, 10, 35, 32, 69, 82,
+    82, 79, 82, 32, 77, 105, 115, 115, 105, 110, 103, 32, 108, 105, 110, 101, 32, 101, 110, 100, 32, 97, 102, 116,
+    101, 114, 32, 118, 97, 114, 105, 97, 110, 116, 32, 108, 105, 115, 116, 10, 109, 105, 115, 115, 105, 110, 103,
+    45, 108, 105, 110, 101, 45, 101, 110, 100, 32, 61, 10, 32, 32, 32, 32, 123, 32, 36, 115, 101, 108, 32, 45, 62,
+    10, 32, 32, 32, 32, 32, 32, 32, 32, 42, 91, 107, 101, 121, 93, 32, 86, 97, 108, 117, 101, 125, 10]
+#guard inClass fixture_select_expressions true == false && inClass fixture_select_expressions false == true
+
+/-- census: `select_indent.ftl` — with_junk=true: false, with_junk=false: true -/
+def fixture_select_indent : Src :=
+    #[115, 101, 108, 101, 99, 116, 45, 49, 116, 98, 115, 45, 105, 110, 108, 105, 110, 101, 32, 61, 32, 123, 32,
+    36, 115, 101, 108, 101, 99, 116, 111, 114, 32, 45, 62, 10, 32, 32, 32, 42, 91, 107, 101, 121, 93, 32, 86, 97,
+    108, 117, 101, 10, 125, 10, 10, 115, 101, 108, 101, 99, 116, 45, 49, 116, 98, 115, 45, 110, 101, 119, 108,
+    105, 110, 101, 32, 61, 32, 123, 10, 36, 115, 101, 108, 101, 99, 116, 111, 114, 32, 45, 62, 10, 32, 32, 32, 42,
+    91, 107, 101, 121, 93, 32, 86, 97, 108, 117, 101, 10, 125, 10, 10, 115, 101, 108, 101, 99, 116, 45, 49, 116,
+    98, 115, 45, 105, 110, 100, 101, 110, 116, 32, 61, 32, 123, 10, 32, 32, 32, 32, 36, 115, 101, 108, 101, 99,
+    116, 111, 114, 32, 45, 62, 10, 32, 32, 32, 42, 91, 107, 101, 121, 93, 32, 86, 97, 108, 117, 101, 10, 125, 10,
+    10, 115, 101, 108, 101, 99, 116, 45, 97, 108, 108, 109, 97, 110, 45, 105, 110, 108, 105, 110, 101, 32, 61, 10,
+    123, 32, 36, 115, 101, 108, 101, 99, 116, 111, 114, 32, 45, 62, 10, 32, 32, 32, 42, 91, 107, 101, 121, 93, 32,
+    86, 97, 108, 117, 101, 10, 32, 32, 32, 32, 91, 111, 116, 104, 101, 114, 93, 32, 79, 116, 104, 101, 114, 10,
+    125, 10, 10, 115, 101, 108, 101, 99, 116, 45, 97, 108, 108, 109, 97, 110, 45, 110, 101, 119, 108, 105, 110,
+    101, 32, 61, 10, 123, 10, 36, 115, 101, 108, 101, 99, 116, 111, 114, 32, 45, 62, 10, 32, 32, 32, 42, 91, 107,
+    101, 121, 93, 32, 86, 97, 108, 117, 101, 10, 125, 10, 10, 115, 101, 108, 101, 99, 116, 45, 97, 108, 108, 109,
+    97, 110, 45, 105, 110, 100, 101, 110, 116, 32, 61, 10, 123, 10, 32, 32, 32, 32, 36, 115, 101, 108, 101, 99,
+    116, 111, 114, 32, 45, 62, 10, 32, 32, 32, 42, 91, 107, 101, 121, 93, 32, 86, 97, 108, 117, 101, 10, 125, 10,
+    10, 115, 101, 108, 101, 99, 116, 45, 103, 110, 117, 45, 105, 110, 108, 105, 110, 101, 32, 61, 10, 32, 32, 32,
+    123, 32, 36, 115, 101, 108, 101, 99, 116, 111, 114, 32, 45, 62, 10, 32, 32, 32, 32, 32, 32, 42, 91, 107, 101,
+    121, 93, 32, 86, 97, 108, 117, 101, 10, 32, 32, 32, 125, 10, 10, 115, 101, 108, 101, 99, 116, 45, 103, 110,
+    117, 45, 110, 101, 119, 108, 105, 110, 101, 32, 61, 10, 32, 32, 32, 123, 10, 36, 115, 101, 108, 101, 99, 116,
+    111, 114, 32, 45, 62, 10, 32, 32, 32, 32, 32, 32, 42, 91, 107, 101, 121, 93, 32, 86, 97, 108, 117, 101, 10,
+    32, 32, 32, 125, 10, 10, 115, 101, 108, 101, 99, 116, 45, 103, 110, 117, 45, 105, 110, 100, 101, 110, 116, 32,
+    61, 10, 32, 32, 32, 123, 10, 32, 32, 32, 32, 32, 32, 32, 36, 115, 101, 108, 101, 99, 116, 111, 114, 32, 45,
+    62, 10, 32, 32, 32, 32, 32, 32, 42, 91, 107, 101, 121, 93, 32, 86, 97, 108, 117, 101, 10, 32, 32, 32, 125, 10,
+    10, 115, 101, 108, 101, 99, 116, 45, 110, 111, 45, 105, 110, 100, 101, 110, 116, 32, 61, 10, 123, 10, 36, 115,
+    101, 108, 101, 99, 116, 111, 114, 32, 45, 62, 10, 42, 91, 107, 101, 121, 93, 32, 86, 97, 108, 117, 101, 10,
+    91, 111, 116, 104, 101, 114, 93, 32, 79, 116, 104, 101, 114, 10, 125, 10, 10, 115, 101, 108, 101, 99, 116, 45,
+    110, 111, 45, 105, 110, 100, 101, 110, 116, 45, 109, 117, 108, 116, 105, 108, 105, 110, 101, 32, 61, 10, 123,
+    10, 36, 115, 101, 108, 101, 99, 116, 111, 114, 32, 45, 62, 10, 42, 91, 107, 101, 121, 93, 32, 86, 97, 108,
+    117, 101, 10, 32, 32, 32, 32, 32, 32, 32, 67, 111, 110, 116, 105, 110, 117, 101, 100, 10, 91, 111, 116, 104,
+    101, 114, 93, 10, 32, 32, 32, 32, 79, 116, 104, 101, 114, 10, 32, 32, 32, 32, 77, 117, 108, 116, 105, 108,
+    105, 110, 101, 10, 125, 10, 10, 35, 32, 69, 82, 82, 79, 82, 32, 40, 77, 117, 108, 116, 105, 108, 105, 110,
+    101, 32, 116, 101, 120, 116, 32, 109, 117, 115, 116, 32, 98, 101, 32, 105, 110, 100, 101, 110, 116, 101, 100,
+    41, 10, 115, 101, 108, 101, 99, 116, 45, 110, 111, 45, 105, 110, 100, 101, 110, 116, 45, 109, 117, 108, 116,
+    105, 108, 105, 110, 101, 32, 61, 32, 123, 32, 36, 115, 101, 108, 101, 99, 116, 111, 114, 32, 45, 62, 10, 32,
+    32, 32, 42, 91, 107, 101, 121, 93, 32, 86, 97, 108, 117, 101, 10, 67, 111, 110, 116, 105, 110, 117, 101, 100,
+    32, 119, 105, 116, 104, 111, 117, 116, 32, 105, 110, 100, 101, 110, 116, 46, 10, 125, 10, 10, 115, 101, 108,
+    101, 99, 116, 45, 102, 108, 97, 116, 32, 61, 10, 123, 10, 36, 115, 101, 108, 101, 99, 116, 111, 114, 10, 45,
+    62, 10, 42, 91, 10, 107, 101, 121, 10, 93, 32, 86, 97, 108, 117, 101, 10, 91, 10, 111, 116, 104, 101, 114, 10,
+    93, 32, 79, 116, 104, 101, 114, 10, 125, 10, 10, 35, 32, 69, 97, 99, 104, 32, 108, 105, 110, 101, 32, 101,
+    110, 100, 115, 32, 119, 105, 116, 104, 32, 53, 32, 115, 112, 97, 99, 101, 115, 46, 10, 115, 101, 108, 101, 99,
+    116, 45, 102, 108, 97, 116, 45, 119, 105, 116, 104, 45, 116, 114, 97, 105, 108, 105, 110, 103, 45, 115, 112,
+    97, 99, 101, 115, 32, 61, 10, 123, 32, 32, 32, 32, 32, 10, 36, 115, 101, 108, 101, 99, 116, 111, 114, 32, 32,
+    32, 32, 32, 10, 45, 62, 32, 32, 32, 32, 32, 10, 42, 91, 32, 32, 32, 32, 32, 10, 107, 101, 121, 32, 32, 32, 32,
+    32, 10, 93, 32, 86, 97, 108, 117, 101, 32, 32, 32, 32, 32, 10, 91, 32, 32, 32, 32, 32, 10, 111, 116, 104, 101,
+    114, 32, 32, 32, 32, 32, 10, 93, 32, 79, 116, 104, 101, 114, 32, 32, 32, 32, 32, 10, 125, 32, 32, 32, 32, 32,
+    10]
+#guard inClass fixture_select_indent true == false && inClass fixture_select_indent false == true
+
+/-- census: `sparse_entries.ftl` — with_junk=true: true, with_junk=false: true -/
+def fixture_sparse_entries : Src :=
+    #[107, 101, 121, 48, 49, 32, 61, 10, 10, 10, 32, 32, 32, 32, 86, 97, 108, 117, 101, 10, 10, 107, 101, 121, 48,
+    50, 32, 61, 10, 10, 10, 32, 32, 32, 32, 46, 97, 116, 116, 114, 32, 61, 32, 65, 116, 116, 114, 105, 98, 117,
+    116, 101, 10, 10, 10, 107, 101, 121, 48, 51, 32, 61, 10, 32, 32, 32, 32, 86, 97, 108, 117, 101, 10, 32, 32,
+    32, 32, 67, 111, 110, 116, 105, 110, 117, 101, 100, 10, 10, 10, 32, 32, 32, 32, 79, 118, 101, 114, 32, 109,
+    117, 108, 116, 105, 112, 108, 101, 10, 32, 32, 32, 32, 76, 105, 110, 101, 115, 10, 10, 10, 10, 32, 32, 32, 32,
+    46, 97, 116, 116, 114, 32, 61, 32, 65, 116, 116, 114, 105, 98, 117, 116, 101, 10, 10, 10, 107, 101, 121, 48,
+    53, 32, 61, 32, 32, 32, 32, 32, 32, 32, 32, 32, 32, 32, 32, 32, 32, 32, 32, 32, 32, 32, 32, 32, 86, 97, 108,
+    117, 101, 10, 10, 107, 101, 121, 48, 54, 32, 61, 32, 123, 32, 49, 32, 45, 62, 10, 10, 10, 32, 32, 32, 32, 32,
+    32, 32, 32, 32, 91, 111, 110, 101, 93, 32, 79, 110, 101, 10, 10, 10, 10, 10, 32, 32, 32, 32, 32, 32, 32, 32,
+    42, 91, 116, 119, 111, 93, 32, 84, 119, 111, 10, 10, 10, 10, 32, 32, 32, 32, 125, 10]
+#guard inClass fixture_sparse_entries true == true && inClass fixture_sparse_entries false == true
+
+/-- census: `special_chars.ftl` — with_junk=true: false, with_junk=false: true -/
+def fixture_special_chars : Src :=
+    #[35, 35, 32, 79, 75, 10, 10, 98, 114, 97, 99, 107, 101, 116, 45, 105, 110, 108, 105, 110, 101, 32, 61, 32,
+    91, 86, 97, 108, 117, 101, 93, 10, 100, 111, 116, 45, 105, 110, 108, 105, 110, 101, 32, 61, 32, 46, 86, 97,
+    108, 117, 101, 10, 115, 116, 97, 114, 45, 105, 110, 108, 105, 110, 101, 32, 61, 32, 42, 86, 97, 108, 117, 101,
+    10, 10, 35, 35, 32, 69, 82, 82, 79, 82, 83, 10, 10, 98, 114, 97, 99, 107, 101, 116, 45, 110, 101, 119, 108,
+    105, 110, 101, 32, 61, 10, 32, 32, 32, 32, 91, 86, 97, 108, 117, 101, 93, 10, 100, 111, 116, 45, 110, 101,
+    119, 108, 105, 110, 101, 32, 61, 10, 32, 32, 32, 32, 46, 86, 97, 108, 117, 101, 10, 115, 116, 97, 114, 45,
+    110, 101, 119, 108, 105, 110, 101, 32, 61, 10, 32, 32, 32, 32, 42, 86, 97, 108, 117, 101, 10]
+#guard inClass fixture_special_chars true == false && inClass fixture_special_chars false == true
+example : (inClass fixture_special_chars true == false && inClass fixture_special_chars false == true) = true := by decide +kernel
+
+/-- census: `tab.ftl` — with_junk=true: false, with_junk=false: true -/
+def fixture_tab : Src :=
+    #[35, 32, 79, 75, 32, 40, 116, 97, 98, 32, 97, 102, 116, 101, 114, 32, 61, 32, 105, 115, 32, 112, 97, 114,
+    116, 32, 111, 102, 32, 116, 104, 101, 32, 118, 97, 108, 117, 101, 41, 10, 107, 101, 121, 48, 49, 32, 61, 9,
+    86, 97, 108, 117, 101, 32, 48, 49, 10, 10, 35, 32, 69, 114, 114, 111, 114, 32, 40, 116, 97, 98, 32, 98, 101,
+    102, 111, 114, 101, 32, 61, 41, 10, 107, 101, 121, 48, 50, 9, 61, 32, 86, 97, 108, 117, 101, 32, 48, 50, 10,
+    10, 35, 32, 69, 114, 114, 111, 114, 32, 40, 116, 97, 98, 32, 105, 115, 32, 110, 111, 116, 32, 97, 32, 118, 97,
+    108, 105, 100, 32, 105, 110, 100, 101, 110, 116, 41, 10, 107, 101, 121, 48, 51, 32, 61, 10, 9, 84, 104, 105,
+    115, 32, 108, 105, 110, 101, 32, 105, 115, 110, 39, 116, 32, 112, 114, 111, 112, 101, 114, 108, 121, 32, 105,
+    110, 100, 101, 110, 116, 101, 100, 46, 10, 10, 35, 32, 80, 97, 114, 116, 105, 97, 108, 32, 69, 114, 114, 111,
+    114, 32, 40, 116, 97, 98, 32, 105, 115, 32, 110, 111, 116, 32, 97, 32, 118, 97, 108, 105, 100, 32, 105, 110,
+    100, 101, 110, 116, 41, 10, 107, 101, 121, 48, 52, 32, 61, 10, 32, 32, 32, 32, 84, 104, 105, 115, 32, 108,
+    105, 110, 101, 32, 105, 115, 32, 105, 110, 100, 101, 110, 116, 101, 100, 32, 98, 121, 32, 52, 32, 115, 112,
+    97, 99, 101, 115, 44, 10, 9, 119, 104, 101, 114, 101, 97, 115, 32, 116, 104, 105, 115, 32, 108, 105, 110, 101,
+    32, 98, 121, 32, 49, 32, 116, 97, 98, 46, 10, 10, 35, 32, 79, 75, 32, 40, 118, 97, 108, 117, 101, 32, 105,
+    115, 32, 97, 32, 115, 105, 110, 103, 108, 101, 32, 116, 97, 98, 41, 10, 107, 101, 121, 48, 53, 32, 61, 32, 9,
+    10, 10, 35, 32, 79, 75, 32, 40, 97, 116, 116, 114, 105, 98, 117, 116, 101, 32, 118, 97, 108, 117, 101, 32,
+    105, 115, 32, 116, 119, 111, 32, 116, 97, 98, 115, 41, 10, 107, 101, 121, 48, 54, 32, 61, 10, 32, 32, 46, 97,
+    116, 116, 114, 32, 61, 32, 9, 9, 10]
+#guard inClass fixture_tab true == false && inClass fixture_tab false == true
+
+/-- census: `term_parameters.ftl` — with_junk=true: true, with_junk=false: true -/
+def fixture_term_parameters : Src :=
+    #[45, 116, 101, 114, 109, 32, 61, 32, 123, 32, 36, 97, 114, 103, 32, 45, 62, 10, 32, 32, 32, 42, 91, 107, 101,
+    121, 93, 32, 86, 97, 108, 117, 101, 10, 125, 10, 10, 107, 101, 121, 48, 49, 32, 61, 32, 123, 32, 45, 116, 101,
+    114, 109, 32, 125, 10, 107, 101, 121, 48, 50, 32, 61, 32, 123, 32, 45, 116, 101, 114, 109, 32, 40, 41, 32,
+    125, 10, 107, 101, 121, 48, 51, 32, 61, 32, 123, 32, 45, 116, 101, 114, 109, 40, 97, 114, 103, 58, 32, 49, 41,
+    32, 125, 10, 107, 101, 121, 48, 52, 32, 61, 32, 123, 32, 45, 116, 101, 114, 109, 40, 34, 112, 111, 115, 105,
+    116, 105, 111, 110, 97, 108, 34, 44, 32, 110, 97, 114, 103, 49, 58, 32, 49, 44, 32, 110, 97, 114, 103, 50, 58,
+    32, 50, 41, 32, 125, 10]
+#guard inClass fixture_term_parameters true == true && inClass fixture_term_parameters false == true
+example : (inClass fixture_term_parameters true == true && inClass fixture_term_parameters false == true) = true := by decide +kernel
+
+/-- census: `terms.ftl` — with_junk=true: false, with_junk=false: true -/
+def fixture_terms : Src :=
+    #[45, 116, 101, 114, 109, 48, 49, 32, 61, 32, 86, 97, 108, 117, 101, 10, 32, 32, 32, 32, 46, 97, 116, 116,
+    114, 32, 61, 32, 65, 116, 116, 114, 105, 98, 117, 116, 101, 10, 10, 45, 116, 101, 114, 109, 48, 50, 32, 61,
+    32, 123, 34, 34, 125, 10, 10, 35, 32, 74, 85, 78, 75, 32, 77, 105, 115, 115, 105, 110, 103, 32, 118, 97, 108,
+    117, 101, 10, 45, 116, 101, 114, 109, 48, 51, 32, 61, 10, 32, 32, 32, 32, 46, 97, 116, 116, 114, 32, 61, 32,
+    65, 116, 116, 114, 105, 98, 117, 116, 101, 10, 10, 35, 32, 74, 85, 78, 75, 32, 77, 105, 115, 115, 105, 110,
+    103, 32, 118, 97, 108, 117, 101, 10, 35, 32, 32, 32, 32, 32, 32, 32, 32, 60, 32, 32, 119, 104, 105, 116, 101,
+    115, 112, 97, 99, 101, 32, 32, 62, 10, 45, 116, 101, 114, 109, 48, 52, 32, 61, 32, 32, 32, 32, 32, 32, 32, 32,
+    32, 32, 32, 32, 32, 32, 32, 32, 10, 32, 32, 32, 32, 46, 97, 116, 116, 114, 49, 32, 61, 32, 65, 116, 116, 114,
+    105, 98, 117, 116, 101, 32, 49, 10, 10, 35, 32, 74, 85, 78, 75, 32, 77, 105, 115, 115, 105, 110, 103, 32, 118,
+    97, 108, 117, 101, 10, 45, 116, 101, 114, 109, 48, 53, 32, 61, 10, 10, 35, 32, 74, 85, 78, 75, 32, 77, 105,
+    115, 115, 105, 110, 103, 32, 118, 97, 108, 117, 101, 10, 35, 32, 32, 32, 32, 32, 32, 32, 32, 60, 32, 32, 119,
+    104, 105, 116, 101, 115, 112, 97, 99, 101, 32, 32, 62, 10, 45, 116, 101, 114, 109, 48, 54, 32, 61, 32, 32, 32,
+    32, 32, 32, 32, 32, 32, 32, 32, 32, 32, 32, 32, 32, 10, 10, 35, 32, 74, 85, 78, 75, 32, 77, 105, 115, 115,
+    105, 110, 103, 32, 61, 10, 45, 116, 101, 114, 109, 48, 55, 10, 10, 45, 116, 101, 114, 109, 48, 56, 61, 86, 97,
+    108, 117, 101, 10, 32, 32, 32, 32, 46, 97, 116, 116, 114, 61, 65, 116, 116, 114, 105, 98, 117, 116, 101, 10,
+    10, 45, 116, 101, 114, 109, 48, 57, 32, 32, 32, 61, 32, 32, 86, 97, 108, 117, 101, 10, 32, 32, 32, 32, 46, 97,
+    116, 116, 114, 32, 32, 61, 32, 32, 32, 65, 116, 116, 114, 105, 98, 117, 116, 101, 10]
+#guard inClass fixture_terms true == false && inClass fixture_terms false == true
+
+/-- census: `variables.ftl` — with_junk=true: false, with_junk=false: true -/
+def fixture_variables : Src :=
+    #[107, 101, 121, 48, 49, 32, 61, 32, 123, 36, 118, 97, 114, 125, 10, 107, 101, 121, 48, 50, 32, 61, 32, 123,
+    32, 32, 32, 36, 118, 97, 114, 32, 32, 32, 125, 10, 107, 101, 121, 48, 51, 32, 61, 32, 123, 10, 32, 32, 32, 32,
+    36, 118, 97, 114, 10, 125, 10, 107, 101, 121, 48, 52, 32, 61, 32, 123, 10, 36, 118, 97, 114, 125, 10, 10, 10,
+    35, 35, 32, 69, 114, 114, 111, 114, 115, 10, 10, 35, 32, 69, 82, 82, 79, 82, 32, 77, 105, 115, 115, 105, 110,
+    103, 32, 118, 97, 114, 105, 97, 98, 108, 101, 32, 105, 100, 101, 110, 116, 105, 102, 105, 101, 114, 10, 101,
+    114, 114, 48, 49, 32, 61, 32, 123, 36, 125, 10, 35, 32, 69, 82, 82, 79, 82, 32, 68, 111, 117, 98, 108, 101,
+    32, 36, 36, 10, 101, 114, 114, 48, 50, 32, 61, 32, 123, 36, 36, 118, 97, 114, 125, 10, 35, 32, 69, 82, 82, 79,
+    82, 32, 73, 110, 118, 97, 108, 105, 100, 32, 102, 105, 114, 115, 116, 32, 99, 104, 97, 114, 32, 111, 102, 32,
+    116, 104, 101, 32, 105, 100, 101, 110, 116, 105, 102, 105, 101, 114, 10, 101, 114, 114, 48, 51, 32, 61, 32,
+    123, 36, 45, 118, 97, 114, 125, 10]
+#guard inClass fixture_variables true == false && inClass fixture_variables false == true
+
+/-- census: `variant_keys.ftl` — with_junk=true: false, with_junk=false: true -/
+def fixture_variant_keys : Src :=
+    #[115, 105, 109, 112, 108, 101, 45, 105, 100, 101, 110, 116, 105, 102, 105, 101, 114, 32, 61, 10, 32, 32, 32,
+    32, 123, 32, 36, 115, 101, 108, 32, 45, 62, 10, 32, 32, 32, 32, 32, 32, 32, 42, 91, 107, 101, 121, 93, 32,
+    118, 97, 108, 117, 101, 10, 32, 32, 32, 32, 125, 10, 10, 105, 100, 101, 110, 116, 105, 102, 105, 101, 114, 45,
+    115, 117, 114, 114, 111, 117, 110, 100, 101, 100, 45, 98, 121, 45, 119, 104, 105, 116, 101, 115, 112, 97, 99,
+    101, 32, 61, 10, 32, 32, 32, 32, 123, 32, 36, 115, 101, 108, 32, 45, 62, 10, 32, 32, 32, 32, 32, 32, 32, 42,
+    91, 32, 32, 32, 32, 32, 107, 101, 121, 32, 32, 32, 32, 32, 93, 32, 118, 97, 108, 117, 101, 10, 32, 32, 32, 32,
+    125, 10, 10, 105, 110, 116, 45, 110, 117, 109, 98, 101, 114, 32, 61, 10, 32, 32, 32, 32, 123, 32, 36, 115,
+    101, 108, 32, 45, 62, 10, 32, 32, 32, 32, 32, 32, 32, 42, 91, 49, 93, 32, 118, 97, 108, 117, 101, 10, 32, 32,
+    32, 32, 125, 10, 10, 102, 108, 111, 97, 116, 45, 110, 117, 109, 98, 101, 114, 32, 61, 10, 32, 32, 32, 32, 123,
+    32, 36, 115, 101, 108, 32, 45, 62, 10, 32, 32, 32, 32, 32, 32, 32, 42, 91, 51, 46, 49, 52, 93, 32, 118, 97,
+    108, 117, 101, 10, 32, 32, 32, 32, 125, 10, 10, 35, 32, 69, 82, 82, 79, 82, 10, 105, 110, 118, 97, 108, 105,
+    100, 45, 105, 100, 101, 110, 116, 105, 102, 105, 101, 114, 32, 61, 10, 32, 32, 32, 32, 123, 32, 36, 115, 101,
+    108, 32, 45, 62, 10, 32, 32, 32, 32, 32, 32, 32, 42, 91, 116, 119, 111, 32, 119, 111, 114, 100, 115, 93, 32,
+    118, 97, 108, 117, 101, 10, 32, 32, 32, 32, 125, 10, 10, 35, 32, 69, 82, 82, 79, 82, 10, 105, 110, 118, 97,
+    108, 105, 100, 45, 105, 110, 116, 32, 61, 10, 32, 32, 32, 32, 123, 32, 36, 115, 101, 108, 32, 45, 62, 10, 32,
+    32, 32, 32, 32, 32, 32, 42, 91, 49, 32, 97, 112, 112, 108, 101, 93, 32, 118, 97, 108, 117, 101, 10, 32, 32,
+    32, 32, 125, 10, 10, 35, 32, 69, 82, 82, 79, 82, 10, 105, 110, 118, 97, 108, 105, 100, 45, 105, 110, 116, 32,
+    61, 10, 32, 32, 32, 32, 123, 32, 36, 115, 101, 108, 32, 45, 62, 10, 32, 32, 32, 32, 32, 32, 32, 42, 91, 51,
+    46, 49, 52, 32, 97, 112, 112, 108, 101, 115, 93, 32, 118, 97, 108, 117, 101, 10, 32, 32, 32, 32, 125, 10]
+#guard inClass fixture_variant_keys true == false && inClass fixture_variant_keys false == true
+
+/-- census: `whitespace_in_value.ftl` — with_junk=true: true, with_junk=false: true -/
+def fixture_whitespace_in_value : Src :=
+    #[35, 32, 67, 97, 117, 116, 105, 111, 110, 44, 32, 108, 105, 110, 101, 115, 32, 54, 32, 97, 110, 100, 32, 55,
+    32, 99, 111, 110, 116, 97, 105, 110, 32, 119, 104, 105, 116, 101, 45, 115, 112, 97, 99, 101, 45, 111, 110,
+    108, 121, 32, 108, 105, 110, 101, 115, 10, 107, 101, 121, 32, 61, 10, 32, 32, 102, 105, 114, 115, 116, 32,
+    108, 105, 110, 101, 10, 10, 10, 32, 32, 10, 32, 32, 10, 10, 10, 32, 32, 108, 97, 115, 116, 32, 108, 105, 110,
+    101, 10]
+#guard inClass fixture_whitespace_in_value true == true && inClass fixture_whitespace_in_value false == true
+example : (inClass fixture_whitespace_in_value true == true && inClass fixture_whitespace_in_value false == true) = true := by decide +kernel
+
+/-- census: `zero_length.ftl` — with_junk=true: true, with_junk=false: true -/
+def fixture_zero_length : Src :=
+    #[]
+#guard inClass fixture_zero_length true == true && inClass fixture_zero_length false == true
+example : (inClass fixture_zero_length true == true && inClass fixture_zero_length false == true) = true := by decide +kernel
 
 end FluentProofs.C04
